@@ -8,6 +8,7 @@ import uuid as _uuid
 from fractions import Fraction
 
 from ..core import Op
+from .. import history
 from ..rat import rat
 from .. import leanio
 from ..symtrace import Sym
@@ -23,7 +24,10 @@ THEOREMS = [_T + n for n in [
     "C04_missing_rejected", "C04_different_clips_rejected", "C04_order_irrelevant",
     "C04_project_outsider_rejected", "C04_project_no_annotations_accepted",
     "C04_clip_eval_iff_subsets", "C04_unit_float_iff", "C04_unit_float_fin", "C04_clip_float_fin", "C04_clip_float_iff",
-    "C04_clip_float_nan", "C04_aoef_loaded_evaluation", "C04_aoef_loaded_project", "C04_aoef_numbers_agree", "C04_unit_table_float"]]
+    "C04_clip_float_nan", "C04_aoef_loaded_evaluation", "C04_aoef_loaded_project", "C04_aoef_numbers_agree", "C04_unit_table_float",
+    "C04_roles_separate", "C04_kinds_independent", "C04_shared_identifier", "C04_project_fast",
+    "C04_history_eval_no_effect", "C04_history_verdict", "C04_history_constructions_do_not_interfere",
+    "C04_history_set_ids", "C04_history_copy"]]
 LEVEL_TEXT = ("Lean theorems over a model of the validators written as the code decides (list length against set length, set "
               "equality, loop with early raise, ge/le), for identifiers of any type with decidable equality: a clip evaluation "
               "is accepted iff annotations and predictions share the clip, every annotated and every predicted sound event is "
@@ -33,29 +37,47 @@ LEVEL_TEXT = ("Lean theorems over a model of the validators written as the code 
               "empty clips, all-unmatched, perfect, duplicate, foreign, missing and cross-clip patterns and order independence; "
               "whatever an AOEF document contains, a collection that the loader model (C01's loadChecked) returns satisfies the "
               "relational conditions, and the numbers the AOEF adapters hand to the constructors are decided as by the "
-              "constructors. Tied to the code by: re-extracted ge/gt/le/lt metadata of every score-like field proved to accept "
+              "constructors; the target / source roles never mix (the decision is a conjunction of a target-side and a "
+              "source-side decision and is invariant under any injective renaming of either side, so a prediction carrying the "
+              "uuid of an annotation changes nothing); in a session on live objects that are appended to, assigned, copied "
+              "(store semantics runHistory) every construction is decided on what the objects carry at that moment, "
+              "constructions do not interfere and leave the objects unchanged. Tied to the code by: re-extracted ge/gt/le/lt metadata of every score-like field proved to accept "
               "exactly [0,1] (over the rationals, or on binary64 values); symbolic traces, proved equal to the model for all "
               "inputs, of the clip-time validator, of the ClipEvaluation and AnnotationProject validators on symbolic "
               "identifiers for every small shape, of the Match validator on every side pattern and of the AOEF adapters' "
               "number hand-over; exhaustive small arrangements realised through constructor, model_validate, "
               "model_validate_json and soundevent.io.load of edited AOEF documents of every collection type (accept/reject "
-              "equal on every path, accepted object equal to the input).")
+              "equal on every path, accepted object equal to the input), also with identifiers shared across kinds, "
+              "attribute objects, numpy / Decimal / Fraction / bool numbers, tuples, long lists, tolerance-sized offsets; "
+              "sessions on reused objects compared step by step with the store model.")
 LEVEL_NOTE = ("Holds on /repo with fixes/C04-1 applied (Clip._validate_times validated raw input: numeric strings bypassed "
               "it). Trusted: Lean kernel; pydantic-core's typed parsing and its application of ge/le metadata and validators "
               "(observed on four construction paths, not modelled from source); the symbolic tracer; C01's correspondence for "
               "the loader model the AOEF theorems speak about. A clip with a nan time is accepted by the code (no comparison "
-              "with nan is true); modelled, not judged. Unmodelled: assignment after construction, model_construct / "
-              "model_copy(update=...), whole AOEF documents with numbers (numbers are tied per adapter). Symbolic ties of the "
-              "relational validators cover the listed small shapes; larger arrangements are tied by generator-bounded "
-              "correspondence.")
-TECHNIQUE = ("Lean 4 proof over model; field-constraint table regenerated by introspection and proved to mean [0,1]; symbolic "
+              "with nan is true); modelled, not judged. Assignment and model_copy(update=...) are modelled as changes of the "
+              "objects a later construction is built from (sessions), not as constructions: an object changed that way is never "
+              "itself validated (pydantic) and is not judged; model_construct is unmodelled; whole AOEF documents with numbers "
+              "are tied per adapter. Symbolic ties of the relational validators cover the listed small shapes; larger "
+              "arrangements (up to 1025 / 2049 sound events) and sessions are tied by generator-bounded correspondence. "
+              "Match.model_validate(obj, from_attributes=True) raises AttributeError (its before-validator expects a mapping): "
+              "nothing is constructed, attribute objects are exercised on every other class.")
+TECHNIQUE = ("Lean 4 proof over model (incl. a store semantics of sessions on reused objects); field-constraint table regenerated by introspection and proved to mean [0,1]; symbolic "
              "traces of the clip-time, clip-evaluation, project and match validators and of the AOEF adapters proved equal to "
              "the model; exhaustive small-scope correspondence through four construction paths and every AOEF collection type")
 RULE = ("exhaustive arrangements of <= 3+3 sound events and <= 4 matches (missing / duplicated / foreign / one-sided / "
         "null-null), clip pairings, identity decoupling (shared sound event, same uuid with other content), task/annotation "
         "memberships, start/end grids, scores around 0 and 1 incl. denormals, nan and infinities, each through constructor, "
-        "model_validate, model_validate_json, AOEF load; non-trivial = the construction was accepted, or was rejected although "
-        "every nested object was valid; distinct = distinct (operation, input incl. path)")
+        "model_validate, model_validate_json, AOEF load; identifiers shared between annotated and predicted sound events "
+        "(exhaustive over one universe); pairwise products of path x null style x aliasing x shared match object x container "
+        "form (tuple / nested / reversed keys) x shared identifiers x clip pairing x positional io.load x optional numbers x "
+        "optional fields x mapping validated twice; 16..1025 (thorough 2049) sound events / tasks; start/end and scores one ulp "
+        "and 2^-52..10^-3 from every comparison at magnitudes 1e-9..1e15, exact ties, every 1/100 and 1/64; numbers as numpy "
+        "scalars / bool / Decimal / Fraction / bytes; attribute objects (namespace, slots, namedtuple, dataclass, class-level, "
+        "property) through from_attributes; sessions: live ClipAnnotation / ClipPrediction / Match / task objects used, changed "
+        "(append, slice, assignment, model_copy shallow / deep, copy, deepcopy, pickle, dump-and-validate) and used again, "
+        "arguments snapshotted around every construction, results poisoned and read again after later constructions; x / "
+        "neighbour / x sequences of every operation on the same uuids; non-trivial = the construction was accepted, or was "
+        "rejected although every nested object was valid; distinct = distinct (operation, input incl. path)")
 TRUSTED = ["pydantic-core: typed parsing (lax coercion of int / numeric strings to float), application of annotated ge/le "
            "constraints and of model validators", "json (repr round trip of binary64)",
            "soundevent.io.save used once per collection type to produce the valid AOEF documents that are then edited"]
@@ -63,7 +85,11 @@ ASSUMPTIONS = ["uuid5 of distinct abstract identifiers are distinct", "the edite
                "present in their tables (dangling references belong to C02; for the loader model they are covered by "
                "C04_aoef_loaded_evaluation / C04_aoef_loaded_project)"]
 NOT_COMPARED = ["which validator rejects and the error message / class (only accept / reject)",
-                "the decision on a clip with a nan time", "assignment after construction, model_construct"]
+                "the decision on a clip with a nan time",
+                "objects produced by assignment / model_copy(update=...) / model_construct themselves (pydantic validates none "
+                "of them); what is compared is every construction that is later built from such objects",
+                "Match.model_validate(obj, from_attributes=True) (AttributeError today, nothing constructed)",
+                "whether a validator changes the mapping it was given, beyond: validating the same mapping twice decides the same"]
 
 NS = _uuid.UUID(int=0xC04)
 DT = datetime.datetime(2020, 1, 2, 3, 4, 5)
@@ -90,7 +116,53 @@ def _num(x, form="float"):
         return int(f)
     if form == "str":
         return repr(v)
+    if form in NUMPY_FORMS or form in ("bool", "decimal", "fraction", "bytes"):
+        return _num_unusual(f, v, form)
     return v
+
+
+NUMPY_FORMS = ("np64", "np32", "np16", "npint", "npint32", "npbool", "np0d")
+UNUSUAL_FORMS = NUMPY_FORMS + ("bool", "decimal", "fraction", "bytes")
+
+
+def _num_unusual(f, v, form):
+    """the same number as another Python type that pydantic's lax float parsing accepts today (numpy scalars,
+    bool, Decimal, Fraction, bytes): what is decided must be the value, not the type"""
+    import numpy as np
+    if form == "np64":
+        return np.float64(v)
+    if form in ("np32", "np16"):
+        w = (np.float32 if form == "np32" else np.float16)(v)
+        assert Fraction(float(w)) == f, "not representable"
+        return w
+    if form in ("npint", "npint32"):
+        assert f.denominator == 1
+        return (np.int64 if form == "npint" else np.int32)(int(f))
+    if form == "npbool":
+        assert f in (0, 1)
+        return np.bool_(bool(f))
+    if form == "np0d":
+        return np.array(v)
+    if form == "bool":
+        assert f in (0, 1)
+        return bool(f)
+    if form == "decimal":
+        import decimal
+        return decimal.Decimal(v)          # exact
+    if form == "fraction":
+        return f
+    if form == "bytes":
+        return repr(v).encode()
+    raise KeyError(form)
+
+
+def form_ok(x, form):
+    """can the rational `x` be written in that form without changing its value?"""
+    try:
+        _num(x, form)
+        return True
+    except (AssertionError, OverflowError, ValueError):
+        return False
 
 
 def _frat(v):
@@ -109,6 +181,9 @@ def _frat(v):
 REC_D = {"uuid": U("rec"), "path": "rec.wav", "duration": 10.0, "channels": 1, "samplerate": 8000}
 TERM_D = {"label": "species", "name": "dwc:species", "definition": "d"}
 TAG_D = {"term": TERM_D, "value": "x"}
+
+
+FEAT_D = {"term": TERM_D, "value": 1.5}        # a feature value is not a score: no range
 
 
 def clip_d(c, start=0.0, end=5.0):
@@ -176,6 +251,11 @@ def TAG():
     return _cached("tag", lambda: data.Tag(term=data.Term(**TERM_D), value="x"))
 
 
+def FEAT():
+    from soundevent import data
+    return data.Feature(term=data.Term(**TERM_D), value=1.5)
+
+
 def PTAG(score=0.5):
     from soundevent import data
     return data.PredictedTag(tag=TAG(), score=score)
@@ -210,7 +290,9 @@ def _tmp_path(name):
 
 
 def _evaluation_template():
-    """a valid evaluation holding every object an arrangement may mention, saved with soundevent.io.save"""
+    """a valid evaluation holding every object a plain arrangement may mention, saved with soundevent.io.save (objects a
+    case mentions beyond these — long lists, a prediction that carries the uuid of an annotation — are added to the
+    tables by `_aoef_ensure`: the annotation and prediction tables of an AOEF document are separate)"""
     if "evaluation" in _TPL:
         return _TPL["evaluation"]
     from soundevent import data, io
@@ -231,6 +313,28 @@ def _evaluation_template():
     os.remove(path)
     _TPL["evaluation"] = json.dumps(doc)
     return _TPL["evaluation"]
+
+
+def _aoef_ensure(D, ann_names, pred_names):
+    """sound events / annotations / predictions that the template does not hold (long lists): entries cloned from
+    those of a0 / p0 with their own uuids"""
+    have_a = {o["uuid"] for o in D["sound_event_annotations"]}
+    have_p = {o["uuid"] for o in D["sound_event_predictions"]}
+    have_s = {o["uuid"] for o in D["sound_events"]}
+    a0 = _by_uuid(D["sound_event_annotations"], U("a0"))
+    p0 = _by_uuid(D["sound_event_predictions"], U("p0"))
+    s0 = _by_uuid(D["sound_events"], a0["sound_event"])
+    for names, have, proto, table in ((ann_names, have_a, a0, "sound_event_annotations"),
+                                      (pred_names, have_p, p0, "sound_event_predictions")):
+        for n in names:
+            if U(n) in have:
+                continue
+            have.add(U(n))
+            su = se_uuid(n)
+            if su not in have_s:
+                have_s.add(su)
+                D["sound_events"].append({**s0, "uuid": su})
+            D[table].append({**proto, "uuid": U(n), "sound_event": su})
 
 
 def _project_template():
@@ -301,13 +405,16 @@ def _by_uuid(lst, u):
 _LOADS = [0]
 
 
-def _load_doc(doc, type_):
+def _load_doc(doc, type_, positional=False):
+    """`positional`: the optional parameters in the documented order load(path, audio_dir, format, type)"""
     from soundevent import io
     _LOADS[0] += 1
     path = _tmp_path("c04_case.json")
     with open(path, "w") as f:
         json.dump(doc, f)
     try:
+        if positional:
+            return io.load(path, None, "aoef", type_)
         return io.load(path, type=type_)
     finally:
         os.remove(path)
@@ -337,13 +444,16 @@ def _match_keys(inp):
     return [first.setdefault(json.dumps(m, sort_keys=True), k) for k, m in enumerate(ms)]
 
 
-def _match_kwargs(m, k, nulls, as_obj, form="float", alias=None):
+def _match_kwargs(m, k, nulls, as_obj, form="float", alias=None, rich=False):
     d = {"uuid": U(f"m{k}")}
     var = alias == "match_content"
+    role = "" if alias == "same_obj" else "match"       # same_obj: the very instance that the clip annotation lists
+    if alias == "same_obj":
+        alias = None
     for side, mk_o, mk_d in (("source", PRED, pred_d), ("target", ANN, ann_d)):
         v = m.get(side)
         if v is not None:
-            d[side] = mk_o(v, "match", alias=alias, variant=var) if as_obj else mk_d(v, alias=alias, variant=var)
+            d[side] = mk_o(v, role, alias=alias, variant=var) if as_obj else mk_d(v, alias=alias, variant=var)
         elif nulls == "explicit":
             d[side] = None
     d["affinity"] = _num(m["affinity"], form)
@@ -351,6 +461,8 @@ def _match_kwargs(m, k, nulls, as_obj, form="float", alias=None):
         d["score"] = _num(m["score"], form)
     elif nulls == "explicit":
         d["score"] = None
+    if rich:
+        d["metrics"] = [FEAT() if as_obj else FEAT_D]
     return d
 
 
@@ -363,11 +475,18 @@ def _clip_eval_dict(inp):
                          "sound_events": [ann_d(a, alias) for a in inp["ann_ids"]]},
          "predictions": {"uuid": U("CP0"), "clip": clip_d(inp["pred_clip"], end=pred_end),
                          "sound_events": [pred_d(p, alias=alias) for p in inp["pred_ids"]]},
-         "matches": [_match_kwargs(m, k, nulls, False, alias=alias) for k, m in zip(_match_keys(inp), inp["matches"])]}
+         "matches": [_match_kwargs(m, k, nulls, False, alias=alias, rich=bool(inp.get("rich")))
+                     for k, m in zip(_match_keys(inp), inp["matches"])]}
     if inp.get("score") is not None:
         d["score"] = _num(inp["score"])
     elif nulls == "explicit":
         d["score"] = None
+    if inp.get("rich"):       # the optional fields next to the validated ones are filled in
+        d["metrics"] = [FEAT_D]
+        d["annotations"]["tags"] = [TAG_D]
+        d["annotations"]["notes"] = [{"uuid": U("note"), "message": "n", "created_on": DT.isoformat()}]
+        d["predictions"]["tags"] = [ptag_d()]
+        d["predictions"]["features"] = [FEAT_D]
     return d
 
 
@@ -381,6 +500,8 @@ def _clip_eval_aoef(inp):
     cp = _by_uuid(D["clip_predictions"], U("CP0"))
     cp["clip"] = U(inp["pred_clip"])
     cp["sound_events"] = [U(p) for p in inp["pred_ids"]]
+    _aoef_ensure(D, list(inp["ann_ids"]) + [m["target"] for m in inp["matches"] if m.get("target") is not None],
+                 list(inp["pred_ids"]) + [m["source"] for m in inp["matches"] if m.get("source") is not None])
     if inp.get("alias") == "shared_se":
         shared = D["sound_events"][0]["uuid"]
         for o in D["sound_event_annotations"] + D["sound_event_predictions"]:
@@ -413,6 +534,9 @@ def _clip_eval_aoef(inp):
         ce.pop("score", None)
         if nulls == "explicit":
             ce["score"] = None
+    if inp.get("cont") == "rev":      # tables and entries in another order: references are by uuid
+        doc["data"] = {k: (list(reversed(v)) if isinstance(v, list) and k != "clip_evaluations" else v)
+                       for k, v in reversed(list(D.items()))}
     return doc
 
 
@@ -435,45 +559,146 @@ def _faithful_clip_eval(ce, inp):
     return got == want
 
 
-def _impl_clip_eval(inp):
+# ---- attribute objects that are not mappings (model_validate(obj, from_attributes=True))
+ATTR_KINDS = ["ns", "slots", "namedtuple", "dataclass", "classattr", "property"]
+
+
+def _attr_obj(kind, fields):
+    """an object that carries `fields` as attributes, in one of the ways Python offers"""
+    import collections
+    import dataclasses
+    import types
+    names = list(fields)
+    if kind == "ns":
+        return types.SimpleNamespace(**fields)
+    if kind == "slots":
+        cls = type("Slotted", (), {"__slots__": tuple(names)})
+        o = cls()
+        for k, v in fields.items():
+            setattr(o, k, v)
+        return o
+    if kind == "namedtuple":
+        return collections.namedtuple("NT", names)(**fields)
+    if kind == "dataclass":
+        return dataclasses.make_dataclass("DC", names)(**fields)
+    if kind == "classattr":
+        return type("ClassLevel", (), dict(fields))()
+    if kind == "property":
+        return type("Props", (), {k: property(lambda self, v=v: v) for k, v in fields.items()})()
+    raise KeyError(kind)
+
+
+def _seq(xs, cont):
+    return tuple(xs) if cont == "tuple" else list(xs)
+
+
+def _tuples(x):
+    """the same JSON-like value with every list written as a tuple"""
+    if isinstance(x, dict):
+        return {k: _tuples(v) for k, v in x.items()}
+    if isinstance(x, list):
+        return tuple(_tuples(v) for v in x)
+    return x
+
+
+def _rev_keys(x):
+    """the same JSON value with the keys of every object in the opposite order"""
+    if isinstance(x, dict):
+        return {k: _rev_keys(v) for k, v in reversed(list(x.items()))}
+    if isinstance(x, list):
+        return [_rev_keys(v) for v in x]
+    return x
+
+
+def _clip_eval_objects(inp):
+    """the live arguments of the constructor path: clip annotation, clip prediction, matches (raises Rejected when a
+    match cannot be constructed), keywords"""
     from soundevent import data
-    path = inp["path"]
     nulls = inp.get("nulls", "absent")
     alias = inp.get("alias")
-    try:
-        if path == "ctor":
-            def build():
-                ca = data.ClipAnnotation(uuid=U("CA0"), clip=CLIP(inp["ann_clip"], "ann"), created_on=DT,
-                                         sound_events=[ANN(a, alias=alias) for a in inp["ann_ids"]])
-                cp = data.ClipPrediction(uuid=U("CP0"), sound_events=[PRED(p, alias=alias) for p in inp["pred_ids"]],
-                                         clip=CLIP(inp["pred_clip"], "pred", end=4.0 if alias == "clip_content" else 5.0))
-                built = {}
-                ms = []
-                for k, m in zip(_match_keys(inp), inp["matches"]):
-                    if k not in built:
-                        built[k] = data.Match(**_match_kwargs(m, k, nulls, True, alias=alias))
-                    ms.append(built[k])
-                kw = {}
-                if inp.get("score") is not None:
-                    kw["score"] = _num(inp["score"])
-                elif nulls == "explicit":
-                    kw["score"] = None
-                return data.ClipEvaluation(uuid=U("CE0"), annotations=ca, predictions=cp, matches=ms, **kw)
-            ce = _attempt(build)
-        elif path == "dict":
-            ce = _attempt(lambda: data.ClipEvaluation.model_validate(_clip_eval_dict(inp)))
-        elif path == "json":
-            ce = _attempt(lambda: data.ClipEvaluation.model_validate_json(json.dumps(_clip_eval_dict(inp))))
-        elif path == "aoef":
-            ev = _attempt(lambda: _load_doc(_clip_eval_aoef(inp), "evaluation"))
-            ce = next(c for c in ev.clip_evaluations if str(c.uuid) == U("CE0"))
+    cont = inp.get("cont")
+    ev_alias = None if alias == "same_obj" else alias
+    rich = bool(inp.get("rich"))
+    ra = {"tags": [TAG()], "notes": [data.Note(uuid=U("note"), message="n", created_on=DT)]} if rich else {}
+    rp = {"tags": [PTAG()], "features": [FEAT()]} if rich else {}
+    ca = data.ClipAnnotation(uuid=U("CA0"), clip=CLIP(inp["ann_clip"], "ann"), created_on=DT,
+                             sound_events=_seq([ANN(a, alias=ev_alias) for a in inp["ann_ids"]], cont), **ra)
+    cp = data.ClipPrediction(uuid=U("CP0"), sound_events=_seq([PRED(p, alias=ev_alias) for p in inp["pred_ids"]], cont),
+                             clip=CLIP(inp["pred_clip"], "pred", end=4.0 if alias == "clip_content" else 5.0), **rp)
+    built = {}
+    ms = []
+    for k, m in zip(_match_keys(inp), inp["matches"]):
+        if k not in built:
+            kw = _match_kwargs(m, k, nulls, True, alias=alias, rich=rich)
+            built[k] = kw if cont == "nested" else _attempt(lambda kw=kw: data.Match(**kw))
+        ms.append(built[k])
+    kw = {"metrics": [FEAT()]} if rich else {}
+    if inp.get("score") is not None:
+        kw["score"] = _num(inp["score"])
+    elif nulls == "explicit":
+        kw["score"] = None
+    return ca, cp, _seq(ms, cont), kw
+
+
+def _make_clip_eval(inp):
+    """one construction; returns the live ClipEvaluation or raises Rejected"""
+    from soundevent import data
+    path = inp["path"]
+    cont = inp.get("cont")
+    if path == "ctor":
+        ca, cp, ms, kw = _clip_eval_objects(inp)
+        if cont == "nested":        # nested objects given as mappings (pydantic validates them on the way)
+            ca, cp = ca.model_dump(), cp.model_dump()
+        return _attempt(lambda: data.ClipEvaluation(uuid=U("CE0"), annotations=ca, predictions=cp, matches=ms, **kw))
+    if path == "dict":
+        if cont == "nested":        # a mapping that holds instances
+            ca, cp, ms, kw = _clip_eval_objects({**inp, "cont": None})
+            d = {"uuid": U("CE0"), "annotations": ca, "predictions": cp, "matches": ms, **kw}
         else:
-            raise KeyError(path)
-    except Rejected:
-        return False
+            d = _clip_eval_dict(inp)
+            if cont == "tuple":
+                d = _tuples(d)
+            elif cont == "rev":
+                d = _rev_keys(d)
+        if inp.get("twice"):      # the caller's mapping is validated a second time: it must still say the same
+            try:
+                data.ClipEvaluation.model_validate(d)
+            except Exception:  # noqa: BLE001
+                pass
+        return _attempt(lambda: data.ClipEvaluation.model_validate(d))
+    if path == "json":
+        d = _clip_eval_dict(inp)
+        if cont == "rev":
+            d = _rev_keys(d)
+        return _attempt(lambda: data.ClipEvaluation.model_validate_json(json.dumps(d)))
+    if path == "aoef":
+        ev = _attempt(lambda: _load_doc(_clip_eval_aoef(inp), "evaluation", positional=inp.get("load_call") == "positional"))
+        return next(c for c in ev.clip_evaluations if str(c.uuid) == U("CE0"))
+    if path.startswith("attrs"):
+        ca, cp, ms, kw = _clip_eval_objects({**inp, "cont": None if cont == "nested" else cont})
+        o = _attr_obj(path.split(":", 1)[1] if ":" in path else "ns",
+                      {"uuid": U("CE0"), "annotations": ca, "predictions": cp, "matches": ms, **kw})
+        return _attempt(lambda: data.ClipEvaluation.model_validate(o, from_attributes=True))
+    raise KeyError(path)
+
+
+def _canon_clip_eval(inp, ce):
     if not _faithful_clip_eval(ce, inp):
         return {"accepted": True, "unfaithful": "the accepted object is not the arrangement that was given"}
     return True
+
+
+def _impl_of(make, canon):
+    def impl(inp):
+        try:
+            obj = make(inp)
+        except Rejected:
+            return False
+        return canon(inp, obj)
+    return impl
+
+
+_impl_clip_eval = _impl_of(_make_clip_eval, _canon_clip_eval)
 
 
 def _strip(*keys):
@@ -481,39 +706,51 @@ def _strip(*keys):
 
 
 # ------------------------------------------------------------------ single matches
-def _impl_match(inp):
+def _make_match(inp):
     from soundevent import data
     path = inp["path"]
     nulls = inp.get("nulls", "absent")
     form = inp.get("form", "float")
-    try:
-        if path == "ctor":
-            m = _attempt(lambda: data.Match(**_match_kwargs(inp, 0, nulls, True, form)))
-        elif path == "dict":
-            m = _attempt(lambda: data.Match.model_validate(_match_kwargs(inp, 0, nulls, False, form)))
-        elif path == "json":
-            m = _attempt(lambda: data.Match.model_validate_json(json.dumps(_match_kwargs(inp, 0, nulls, False, form))))
-        elif path == "aoef":
-            doc = json.loads(_evaluation_template())
-            o = {"uuid": U("m0"), "affinity": _num(inp["affinity"], form)}
-            for side in ("source", "target"):
-                if inp.get(side) is not None:
-                    o[side] = U(inp[side])
-                elif nulls == "explicit":
-                    o[side] = None
-            if inp.get("score") is not None:
-                o["score"] = _num(inp["score"], form)
-            doc["data"]["matches"].append(o)      # every entry of the table is constructed on load
-            _attempt(lambda: _load_doc(doc, "evaluation"))
-            return True
-        else:
-            raise KeyError(path)
-    except Rejected:
-        return False
+    if path == "ctor":
+        return _attempt(lambda: data.Match(**_match_kwargs(inp, 0, nulls, True, form)))
+    if path == "dict":
+        d = _match_kwargs(inp, 0, nulls, False, form)
+        if inp.get("twice"):
+            try:
+                data.Match.model_validate(d)
+            except Exception:  # noqa: BLE001
+                pass
+        return _attempt(lambda: data.Match.model_validate(d))
+    if path == "json":
+        return _attempt(lambda: data.Match.model_validate_json(json.dumps(_match_kwargs(inp, 0, nulls, False, form))))
+    if path == "aoef":
+        doc = json.loads(_evaluation_template())
+        o = {"uuid": U("m0"), "affinity": _num(inp["affinity"], form)}
+        for side in ("source", "target"):
+            if inp.get(side) is not None:
+                o[side] = U(inp[side])
+            elif nulls == "explicit":
+                o[side] = None
+        if inp.get("score") is not None:
+            o["score"] = _num(inp["score"], form)
+        _aoef_ensure(doc["data"], [inp["target"]] if inp.get("target") else [], [inp["source"]] if inp.get("source") else [])
+        doc["data"]["matches"].append(o)      # every entry of the table is constructed on load
+        _attempt(lambda: _load_doc(doc, "evaluation"))
+        return None                           # the match is in no clip evaluation: nothing to read back
+    raise KeyError(path)
+
+
+def _canon_match(inp, m):
+    if m is None:
+        return True
     ok = ((None if m.source is None else str(m.source.uuid)) == (None if inp.get("source") is None else U(inp["source"]))
           and (None if m.target is None else str(m.target.uuid)) == (None if inp.get("target") is None else U(inp["target"]))
-          and rat(m.affinity) == inp["affinity"])
+          and rat(m.affinity) == inp["affinity"]
+          and (None if m.score is None else rat(m.score)) == inp.get("score"))
     return True if ok else {"accepted": True, "unfaithful": "match differs from the input"}
+
+
+_impl_match = _impl_of(_make_match, _canon_match)
 
 
 # ------------------------------------------------------------------ numbers in [0, 1]
@@ -637,106 +874,191 @@ def _unit_read_aoef(field, ev, kind="evaluation"):
     raise KeyError(field)
 
 
-def _impl_unit(inp):
+def _unit_attrs(field, v, kind):
+    """(class name, attribute object) that places `v` at `field`: the object is not a mapping
+    (model_validate(obj, from_attributes=True)); `Match` is left out (its before-validator expects a mapping, see
+    notes/C04-review.md section 6)"""
+    from soundevent import data
+    if field == "ClipEvaluation.score":
+        return "ClipEvaluation", _attr_obj(kind, {
+            "uuid": U("CE0"), "score": v, "matches": [],
+            "annotations": data.ClipAnnotation(uuid=U("CA0"), clip=CLIP("c0"), created_on=DT),
+            "predictions": data.ClipPrediction(uuid=U("CP0"), clip=CLIP("c0"))})
+    if field == "SoundEventPrediction.score":
+        return "SoundEventPrediction", _attr_obj(kind, {"uuid": U("p0"), "sound_event": SE("p0"), "score": v})
+    if field == "SequencePrediction.score":
+        return "SequencePrediction", _attr_obj(kind, {"uuid": U("sq0"), "score": v,
+                                                      "sequence": data.Sequence(uuid=U("seq0"), sound_events=[SE("p0")])})
+    tag = _attr_obj(kind, {"tag": TAG(), "score": v})
+    if field == "PredictedTag.score":
+        return "PredictedTag", tag
+    if field == "PredictedTag.score@clip":
+        return "ClipPrediction", _attr_obj(kind, {"uuid": U("CP0"), "clip": CLIP("c0"), "tags": [tag]})
+    if field == "PredictedTag.score@sound_event":
+        return "SoundEventPrediction", _attr_obj(kind, {"uuid": U("p0"), "sound_event": SE("p0"), "tags": [tag]})
+    if field == "PredictedTag.score@sequence":
+        return "SequencePrediction", _attr_obj(kind, {"uuid": U("sq0"), "tags": [tag],
+                                                      "sequence": data.Sequence(uuid=U("seq0"), sound_events=[SE("p0")])})
+    raise KeyError(field)
+
+
+ATTR_UNIT_FIELDS = [f for f in UNIT_FIELDS if not f.startswith("Match.")]
+
+
+def _make_unit(inp):
+    """returns (read-back value); raises Rejected"""
     from soundevent import data
     field, path, form = inp["field"], inp["path"], inp.get("form", "float")
     v = _num(inp["x"], form)
-    try:
-        if path == "ctor":
-            got = _unit_read(field, _attempt(lambda: _unit_ctor(field, v)))
-        elif path in ("dict", "json"):
-            cls, d = _unit_dict(field, v)
-            c = getattr(data, cls)
-            obj = _attempt((lambda: c.model_validate(d)) if path == "dict" else (lambda: c.model_validate_json(json.dumps(d))))
-            got = _unit_read(field, obj)
-        elif path.startswith("aoef"):
-            kind = _aoef_kind(path)
-            got = _unit_read_aoef(field, _attempt(lambda: _load_doc(_unit_aoef(field, v, kind), kind)), kind)
-        else:
-            raise KeyError(path)
-    except Rejected:
-        return False
-    want = inp["x"]
-    if _frat(got) != want:
-        return {"accepted": True, "unfaithful": f"stored {got!r} for input {v!r}"}
+    if path == "ctor":
+        obj = _attempt(lambda: _unit_ctor(field, v))
+        return obj, _unit_read(field, obj)
+    if path in ("dict", "json"):
+        cls, d = _unit_dict(field, v)
+        c = getattr(data, cls)
+        obj = _attempt((lambda: c.model_validate(d)) if path == "dict" else (lambda: c.model_validate_json(json.dumps(d))))
+        return obj, _unit_read(field, obj)
+    if path.startswith("attrs"):
+        cls, o = _unit_attrs(field, v, path.split(":", 1)[1] if ":" in path else "ns")
+        obj = _attempt(lambda: getattr(data, cls).model_validate(o, from_attributes=True))
+        return obj, _unit_read(field, obj)
+    if path.startswith("aoef"):
+        kind = _aoef_kind(path)
+        obj = _attempt(lambda: _load_doc(_unit_aoef(field, v, kind), kind, positional=inp.get("load_call") == "positional"))
+        return obj, _unit_read_aoef(field, obj, kind)
+    raise KeyError(path)
+
+
+def _canon_unit(inp, made):
+    _obj, got = made
+    if _frat(got) != inp["x"]:
+        return {"accepted": True, "unfaithful": f"stored {got!r} for input {inp['x']} ({inp.get('form', 'float')})"}
     return True
+
+
+_impl_unit = _impl_of(_make_unit, _canon_unit)
 
 
 # ------------------------------------------------------------------ annotation projects
 def _project_dict(inp):
     end = 4.0 if inp.get("alias") == "clip_content" else 5.0
-    return {"uuid": U("PROJ"), "name": "p", "created_on": DT.isoformat(),
+    rich = {"description": "d", "instructions": "i", "annotation_tags": [TAG_D]} if inp.get("rich") else {}
+    return {"uuid": U("PROJ"), "name": "p", "created_on": DT.isoformat(), **rich,
             "tasks": [{"uuid": U(f"task{k}"), "clip": clip_d(c), "created_on": DT.isoformat()}
                       for k, c in enumerate(inp["task_clips"])],
             "clip_annotations": [{"uuid": U(f"pca{k}"), "clip": clip_d(c, end=end), "created_on": DT.isoformat()}
                                  for k, c in enumerate(inp["ann_clips"])]}
 
 
-def _impl_project(inp):
+def _project_objects(inp):
+    from soundevent import data
+    cont = inp.get("cont")
+    tasks = [data.AnnotationTask(uuid=U(f"task{k}"), clip=CLIP(c, "task"), created_on=DT)
+             for k, c in enumerate(inp["task_clips"])]
+    cas = [data.ClipAnnotation(uuid=U(f"pca{k}"), created_on=DT,
+                               clip=CLIP(c, "ann", end=4.0 if inp.get("alias") == "clip_content" else 5.0))
+           for k, c in enumerate(inp["ann_clips"])]
+    return _seq(tasks, cont), _seq(cas, cont)
+
+
+def _make_project(inp):
     from soundevent import data
     path = inp["path"]
-    try:
-        if path == "ctor":
-            proj = _attempt(lambda: data.AnnotationProject(
-                uuid=U("PROJ"), name="p", created_on=DT,
-                tasks=[data.AnnotationTask(uuid=U(f"task{k}"), clip=CLIP(c, "task"), created_on=DT)
-                       for k, c in enumerate(inp["task_clips"])],
-                clip_annotations=[data.ClipAnnotation(uuid=U(f"pca{k}"), created_on=DT,
-                                                      clip=CLIP(c, "ann", end=4.0 if inp.get("alias") == "clip_content" else 5.0))
-                                  for k, c in enumerate(inp["ann_clips"])]))
-        elif path == "dict":
-            proj = _attempt(lambda: data.AnnotationProject.model_validate(_project_dict(inp)))
-        elif path == "json":
-            proj = _attempt(lambda: data.AnnotationProject.model_validate_json(json.dumps(_project_dict(inp))))
-        elif path == "aoef":
-            doc = json.loads(_project_template())
-            D = doc["data"]
-            D["tasks"] = [{"uuid": U(f"task{k}"), "clip": U(c), "created_on": DT.isoformat()}
-                          for k, c in enumerate(inp["task_clips"])]
-            D["clip_annotations"] = [{"uuid": U(f"pca{k}"), "clip": U(c), "created_on": DT.isoformat()}
-                                     for k, c in enumerate(inp["ann_clips"])]
-            proj = _attempt(lambda: _load_doc(doc, "annotation_project"))
-        else:
-            raise KeyError(path)
-    except Rejected:
-        return False
+    cont = inp.get("cont")
+    if path == "ctor":
+        tasks, cas = _project_objects(inp)
+        rich = {"description": "d", "instructions": "i", "annotation_tags": [TAG()]} if inp.get("rich") else {}
+        return _attempt(lambda: data.AnnotationProject(uuid=U("PROJ"), name="p", created_on=DT, tasks=tasks,
+                                                       clip_annotations=cas, **rich))
+    if path == "dict":
+        d = _project_dict(inp)
+        d = _tuples(d) if cont == "tuple" else _rev_keys(d) if cont == "rev" else d
+        if inp.get("twice"):
+            try:
+                data.AnnotationProject.model_validate(d)
+            except Exception:  # noqa: BLE001
+                pass
+        return _attempt(lambda: data.AnnotationProject.model_validate(d))
+    if path == "json":
+        d = _project_dict(inp)
+        d = _rev_keys(d) if cont == "rev" else d
+        return _attempt(lambda: data.AnnotationProject.model_validate_json(json.dumps(d)))
+    if path.startswith("attrs"):
+        tasks, cas = _project_objects(inp)
+        o = _attr_obj(path.split(":", 1)[1] if ":" in path else "ns",
+                      {"uuid": U("PROJ"), "name": "p", "created_on": DT, "tasks": tasks, "clip_annotations": cas})
+        return _attempt(lambda: data.AnnotationProject.model_validate(o, from_attributes=True))
+    if path == "aoef":
+        doc = json.loads(_project_template())
+        D = doc["data"]
+        have = {o["uuid"] for o in D["clips"]}
+        c0 = _by_uuid(D["clips"], U("c0"))
+        for c in list(inp["task_clips"]) + list(inp["ann_clips"]):      # long lists: clips the template does not hold
+            if U(c) not in have:
+                have.add(U(c))
+                D["clips"].append({**c0, "uuid": U(c)})
+        D["tasks"] = [{"uuid": U(f"task{k}"), "clip": U(c), "created_on": DT.isoformat()}
+                      for k, c in enumerate(inp["task_clips"])]
+        D["clip_annotations"] = [{"uuid": U(f"pca{k}"), "clip": U(c), "created_on": DT.isoformat()}
+                                 for k, c in enumerate(inp["ann_clips"])]
+        if cont == "rev":
+            doc["data"] = {k: v for k, v in reversed(list(D.items()))}
+        return _attempt(lambda: _load_doc(doc, "annotation_project", positional=inp.get("load_call") == "positional"))
+    raise KeyError(path)
+
+
+def _canon_project(inp, proj):
     ok = ([str(t.clip.uuid) for t in proj.tasks] == [U(c) for c in inp["task_clips"]]
           and [str(a.clip.uuid) for a in proj.clip_annotations] == [U(c) for c in inp["ann_clips"]])
     return True if ok else {"accepted": True, "unfaithful": "project differs from the input"}
 
 
+_impl_project = _impl_of(_make_project, _canon_project)
+
+
 # ------------------------------------------------------------------ clips
-def _impl_clip(inp):
+def _make_clip(inp):
     from soundevent import data
     path = inp["path"]
     s = _num(inp["start"], inp.get("start_form", "float"))
     e = _num(inp["end"], inp.get("end_form", "float"))
-    try:
-        if path == "ctor":
-            c = _attempt(lambda: data.Clip(uuid=U("c0"), recording=REC(), start_time=s, end_time=e))
-        elif path == "dict":
-            c = _attempt(lambda: data.Clip.model_validate(clip_d("c0", s, e)))
-        elif path == "json":
-            c = _attempt(lambda: data.Clip.model_validate_json(json.dumps(clip_d("c0", s, e))))
-        elif path.startswith("aoef"):
-            kind = _aoef_kind(path)
-            doc = json.loads(_collection_template(kind))
-            o = _by_uuid(doc["data"]["clips"], U("c0"))
-            o["start_time"], o["end_time"] = s, e
-            ev = _attempt(lambda: _load_doc(doc, kind))
-            if kind == "evaluation":
-                c = next(x for x in ev.clip_evaluations if str(x.uuid) == U("CE0")).annotations.clip
-            elif AOEF_KINDS[kind] == "pred":
-                c = next(x for x in ev.clip_predictions if str(x.uuid) == U("CP0")).clip
-            else:
-                c = next(x for x in ev.clip_annotations if str(x.uuid) == U("CA0")).clip
-        else:
-            raise KeyError(path)
-    except Rejected:
-        return False
+    if path == "ctor":
+        return _attempt(lambda: data.Clip(uuid=U("c0"), recording=REC(), start_time=s, end_time=e))
+    if path == "dict":
+        d = {**clip_d("c0", s, e), "recording": REC()} if inp.get("cont") == "nested" else clip_d("c0", s, e)
+        if inp.get("twice"):
+            try:
+                data.Clip.model_validate(d)
+            except Exception:  # noqa: BLE001
+                pass
+        return _attempt(lambda: data.Clip.model_validate(d))
+    if path == "json":
+        return _attempt(lambda: data.Clip.model_validate_json(json.dumps(clip_d("c0", s, e))))
+    if path.startswith("attrs"):
+        o = _attr_obj(path.split(":", 1)[1] if ":" in path else "ns",
+                      {"uuid": U("c0"), "recording": REC(), "start_time": s, "end_time": e})
+        return _attempt(lambda: data.Clip.model_validate(o, from_attributes=True))
+    if path.startswith("aoef"):
+        kind = _aoef_kind(path)
+        doc = json.loads(_collection_template(kind))
+        o = _by_uuid(doc["data"]["clips"], U("c0"))
+        o["start_time"], o["end_time"] = s, e
+        ev = _attempt(lambda: _load_doc(doc, kind, positional=inp.get("load_call") == "positional"))
+        if kind == "evaluation":
+            return next(x for x in ev.clip_evaluations if str(x.uuid) == U("CE0")).annotations.clip
+        if AOEF_KINDS[kind] == "pred":
+            return next(x for x in ev.clip_predictions if str(x.uuid) == U("CP0")).clip
+        return next(x for x in ev.clip_annotations if str(x.uuid) == U("CA0")).clip
+    raise KeyError(path)
+
+
+def _canon_clip(inp, c):
     if _frat(c.start_time) != inp["start"] or _frat(c.end_time) != inp["end"]:
         return {"accepted": True, "unfaithful": f"clip times {c.start_time!r}, {c.end_time!r}"}
     return True
+
+
+_impl_clip = _impl_of(_make_clip, _canon_clip)
 
 
 def _impl_clip_malformed(inp):
@@ -839,14 +1161,14 @@ def _cmp_clip_f(inp, io, mo):
 
 
 OPS = {
-    "clip_eval": Op("clip_eval", _impl_clip_eval, to_model=_strip("path", "nulls", "share", "alias"), nontrivial=_nontrivial_accept,
+    "clip_eval": Op("clip_eval", _impl_clip_eval, to_model=_strip("path", "nulls", "share", "alias", "cont", "load_call", "rich", "twice"), nontrivial=_nontrivial_accept,
                     shrink=True, compare=_cmp_decision("a well-formed clip evaluation", "a clip evaluation whose matches do "
                                                        "not cover each sound event exactly once / with other clips / bad numbers")),
-    "match": Op("match", _impl_match, to_model=_strip("path", "nulls", "form"), nontrivial=_nontrivial_accept,
+    "match": Op("match", _impl_match, to_model=_strip("path", "nulls", "form", "twice"), nontrivial=_nontrivial_accept,
                 compare=_cmp_decision("a match with a side and numbers in [0,1]", "a match without sides or with a number outside [0,1]")),
     "unit": Op("unit", _impl_unit, to_model=lambda i: {"x": i["x"]}, nontrivial=_nontrivial_accept,
                compare=_cmp_decision("a value in [0,1]", "a score / affinity / probability outside [0,1]")),
-    "project": Op("project", _impl_project, to_model=_strip("path", "alias"), nontrivial=_nontrivial_accept, shrink=True,
+    "project": Op("project", _impl_project, to_model=_strip("path", "alias", "cont", "load_call", "rich", "twice"), nontrivial=_nontrivial_accept, shrink=True,
                   compare=_cmp_decision("a project whose annotated clips all have tasks", "a project with an annotation of a clip without a task")),
     "clip": Op("clip", _impl_clip, to_model=lambda i: {"start": i["start"], "end": i["end"]},
                nontrivial=_nontrivial_accept,
@@ -863,6 +1185,474 @@ OPS = {
     "clip_malformed": Op("clip_malformed", _impl_clip_malformed, compare=_cmp_malformed, model_op="malformed",
                          nontrivial=lambda i, o: False),
 }
+
+
+# ------------------------------------------------------------------ sessions: constructions from live, reused objects
+# model: SE.Relational.runHistory (lean/SoundeventModel/RelationalHistory.lean), theorems C04_history_*
+SHALLOW_COPIES = ("model_copy", "copy_assign", "model_copy_then_assign")       # need new ids (the list would be shared)
+DEEP_COPIES = ("model_copy_deep", "deepcopy_assign", "deepcopy_inplace", "pickle", "revalidate", "json_roundtrip")
+SET_HOWS = ("append", "slice", "assign", "extend_pop")
+EVAL_PATHS = ("ctor", "dict_inst", "dump", "json_dump", "attrs")
+
+
+def _session_valid(h):
+    """well-formed: every handle is bound before it is used, with the right kind; a shallow copy gets a new list"""
+    kinds = {}
+    try:
+        for st in h["steps"]:
+            do = st["do"]
+            if do == "new":
+                kinds[st["h"]] = st["kind"]
+            elif do in ("set_ids", "set_clip"):
+                if st["h"] not in kinds:
+                    return False
+            elif do == "copy":
+                if st["src"] not in kinds or (st.get("ids") is None and st.get("how") not in DEEP_COPIES):
+                    return False
+                kinds[st["dst"]] = kinds[st["src"]]
+            elif do == "eval":
+                if kinds.get(st["ann"]) != "ann" or kinds.get(st["pred"]) != "pred":
+                    return False
+            else:
+                return False
+    except (KeyError, TypeError):
+        return False
+    return any(st["do"] == "eval" for st in h["steps"])
+
+
+def _coll_members(kind, ids):
+    return [ANN(a) if kind == "ann" else PRED(a) for a in ids]
+
+
+def _coll_new(kind, clip, ids, via):
+    from soundevent import data
+    cls = data.ClipAnnotation if kind == "ann" else data.ClipPrediction
+    if via == "ctor":
+        kw = {"created_on": DT} if kind == "ann" else {}
+        return cls(uuid=U("CA0" if kind == "ann" else "CP0"), clip=CLIP(clip, kind), sound_events=_coll_members(kind, ids), **kw)
+    if via == "aoef":          # an object that came out of soundevent.io.load
+        coll = "annotation_set" if kind == "ann" else "prediction_set"
+        doc = json.loads(_collection_template(coll))
+        D = doc["data"]
+        table = "sound_event_annotations" if kind == "ann" else "sound_event_predictions"
+        proto = D[table][0]
+        s0 = _by_uuid(D["sound_events"], proto["sound_event"])
+        have, have_s = {o["uuid"] for o in D[table]}, {o["uuid"] for o in D["sound_events"]}
+        for n in ids:
+            if U(n) not in have:
+                have.add(U(n))
+                if se_uuid(n) not in have_s:
+                    have_s.add(se_uuid(n))
+                    D["sound_events"].append({**s0, "uuid": se_uuid(n)})
+                D[table].append({**proto, "uuid": U(n), "sound_event": se_uuid(n)})
+        if U(clip) not in {o["uuid"] for o in D["clips"]}:
+            D["clips"].append({**_by_uuid(D["clips"], U("c0")), "uuid": U(clip)})
+        key = "clip_annotations" if kind == "ann" else "clip_predictions"
+        o = _by_uuid(D[key], U("CA0" if kind == "ann" else "CP0"))
+        o["clip"], o["sound_events"] = U(clip), [U(n) for n in ids]
+        loaded = _load_doc(doc, coll)
+        return next(x for x in getattr(loaded, key) if str(x.uuid) == o["uuid"])
+    d = {"uuid": U("CA0" if kind == "ann" else "CP0"), "clip": clip_d(clip),
+         "sound_events": [ann_d(a) if kind == "ann" else pred_d(a) for a in ids]}
+    if kind == "ann":
+        d["created_on"] = DT.isoformat()
+    return cls.model_validate(d) if via == "dict" else cls.model_validate_json(json.dumps(d))
+
+
+def _coll_content(obj):
+    return {"clip": str(obj.clip.uuid), "ids": [str(x.uuid) for x in obj.sound_events]}
+
+
+def _set_members(obj, kind, old_ids, ids, how):
+    """change `sound_events` of a live object"""
+    new = _coll_members(kind, ids)
+    lst = obj.sound_events
+    if how == "assign" or not isinstance(lst, list):
+        obj.sound_events = new
+    elif how == "append" and ids[:len(old_ids)] == old_ids:
+        for x in new[len(old_ids):]:
+            lst.append(x)
+    elif how == "extend_pop":
+        k = 0
+        while k < len(old_ids) and k < len(ids) and old_ids[k] == ids[k]:
+            k += 1
+        while len(lst) > k:
+            lst.pop()
+        lst.extend(new[k:])
+    else:
+        lst[:] = new
+
+
+def _copy_coll(obj, kind, old_ids, ids, how):
+    import copy as _copy
+    import pickle
+    new = None if ids is None else _coll_members(kind, ids)
+    if how == "model_copy":
+        return obj.model_copy(update={"sound_events": new})
+    if how == "model_copy_deep":
+        return obj.model_copy(update={} if new is None else {"sound_events": new}, deep=True)
+    if how in ("copy_assign", "model_copy_then_assign"):
+        c = _copy.copy(obj) if how == "copy_assign" else obj.model_copy()
+        c.sound_events = new
+        return c
+    if how in ("deepcopy_assign", "deepcopy_inplace", "pickle", "revalidate", "json_roundtrip"):
+        if how in ("deepcopy_assign", "deepcopy_inplace"):
+            c = _copy.deepcopy(obj)
+        elif how == "pickle":
+            c = pickle.loads(pickle.dumps(obj))
+        elif how == "revalidate":
+            c = type(obj).model_validate(obj.model_dump())
+        else:
+            c = type(obj).model_validate_json(obj.model_dump_json())
+        if new is not None:
+            if how == "deepcopy_inplace":
+                _set_members(c, kind, old_ids, ids, "append")
+            else:
+                c.sound_events = new
+        return c
+    raise KeyError(how)
+
+
+def _row_constructible(m):
+    ok = m.get("source") is not None or m.get("target") is not None
+    for k in ("affinity", "score"):
+        if m.get(k) is not None:
+            ok = ok and 0 <= Fraction(m[k]) <= 1
+    return ok
+
+
+def _match_content(ms):
+    return [(None if m.source is None else str(m.source.uuid), None if m.target is None else str(m.target.uuid),
+             rat(m.affinity), None if m.score is None else rat(m.score)) for m in ms]
+
+
+_SKIPPED = [0]
+
+
+def _session_change(st, objs, kinds, content):
+    do = st["do"]
+    if do == "new":
+        objs[st["h"]] = _coll_new(st["kind"], st["clip"], st["ids"], st.get("via", "ctor"))
+        kinds[st["h"]] = st["kind"]
+        content[st["h"]] = {"clip": st["clip"], "ids": list(st["ids"])}
+    elif do == "set_ids":
+        hd = st["h"]
+        _set_members(objs[hd], kinds[hd], content[hd]["ids"], list(st["ids"]), st.get("how", "assign"))
+        content[hd] = {**content[hd], "ids": list(st["ids"])}
+    elif do == "set_clip":
+        hd = st["h"]
+        objs[hd].clip = CLIP(st["clip"], kinds[hd])
+        content[hd] = {**content[hd], "clip": st["clip"]}
+    elif do == "copy":
+        src, dst = st["src"], st["dst"]
+        ids = None if st.get("ids") is None else list(st["ids"])
+        c = _copy_coll(objs[src], kinds[src], content[src]["ids"], ids, st.get("how", "model_copy"))
+        objs[dst], kinds[dst] = c, kinds[src]
+        content[dst] = {"clip": content[src]["clip"], "ids": content[src]["ids"] if ids is None else ids}
+    else:
+        raise KeyError(do)
+
+
+def _impl_clip_eval_history(h):
+    """executes a session on live objects; every construction is observed on its own: accepted / rejected, the
+    arguments before and after the call, the accepted object against what the objects carried at that moment, and
+    at the end every earlier result again"""
+    import types
+    from soundevent import data
+    objs, kinds, content = {}, {}, {}
+    verdicts, notes, results = [], [], []
+    prev_ms = []
+    ms_generation = 0
+    for k, st in enumerate(h["steps"]):
+        do = st["do"]
+        if do != "eval":
+            # a step that changes or copies an object is not a construction: if the current code does not allow it (frozen
+            # models, objects that cannot be pickled) the session cannot be carried out and is not judged
+            try:
+                _session_change(st, objs, kinds, content)
+            except Exception as e:  # noqa: BLE001
+                _SKIPPED[0] += 1
+                return {"verdicts": verdicts, "notes": notes, "skipped": f"step {k} ({do}): {type(e).__name__}"}
+            continue
+        if do == "eval":
+            ca, cp = objs[st["ann"]], objs[st["pred"]]
+            nulls = st.get("nulls", "absent")
+            path = st.get("path", "ctor")
+            kw = {}
+            if st.get("score") is not None:
+                kw["score"] = _num(st["score"])
+            try:
+                ms = []
+                reuse = st.get("match_objs") == "reuse"
+                for i, m in enumerate(st["matches"]):
+                    mo = None
+                    if reuse and i < len(prev_ms) and _row_constructible(m):
+                        mo = prev_ms[i]         # a Match object that was used before, changed by assignment
+                        try:
+                            mo.source = None if m.get("source") is None else PRED(m["source"], "match")
+                            mo.target = None if m.get("target") is None else ANN(m["target"], "match")
+                            mo.affinity = _num(m["affinity"])
+                            mo.score = None if m.get("score") is None else _num(m["score"])
+                        except Exception:  # noqa: BLE001 - the current code does not allow assignment: a fresh one
+                            mo = None
+                    if mo is None:
+                        mo = _attempt(lambda m=m, i=i: data.Match(**_match_kwargs(m, i, nulls, True)))
+                    ms.append(mo)
+                if reuse:
+                    ms_generation += 1
+                before = (_coll_content(ca), _coll_content(cp), _match_content(ms))
+
+                def build():
+                    if path == "ctor":
+                        return data.ClipEvaluation(uuid=U("CE0"), annotations=ca, predictions=cp, matches=ms, **kw)
+                    if path == "dict_inst":
+                        return data.ClipEvaluation.model_validate({"uuid": U("CE0"), "annotations": ca, "predictions": cp,
+                                                                   "matches": ms, **kw})
+                    if path == "attrs":
+                        return data.ClipEvaluation.model_validate(
+                            types.SimpleNamespace(uuid=U("CE0"), annotations=ca, predictions=cp, matches=ms, **kw),
+                            from_attributes=True)
+                    if path == "dump":
+                        return data.ClipEvaluation.model_validate({"uuid": U("CE0"), "annotations": ca.model_dump(),
+                                                                   "predictions": cp.model_dump(),
+                                                                   "matches": [m.model_dump() for m in ms], **kw})
+                    if path == "json_dump":
+                        return data.ClipEvaluation.model_validate_json(json.dumps(
+                            {"uuid": U("CE0"), "annotations": ca.model_dump(mode="json"),
+                             "predictions": cp.model_dump(mode="json"), "matches": [m.model_dump(mode="json") for m in ms], **kw}))
+                    raise KeyError(path)
+                try:
+                    ce = _attempt(build)
+                finally:
+                    after = (_coll_content(ca), _coll_content(cp), _match_content(ms))
+                    if after != before:
+                        notes.append({"step": k, "what": "argument-mutated", "before": before, "after": after})
+                    prev_ms = ms
+            except Rejected:
+                verdicts.append(False)
+                continue
+            verdicts.append(True)
+            want = {"ann": {"clip": U(content[st["ann"]]["clip"]), "ids": [U(a) for a in content[st["ann"]]["ids"]]},
+                    "pred": {"clip": U(content[st["pred"]]["clip"]), "ids": [U(a) for a in content[st["pred"]]["ids"]]},
+                    "matches": [(None if m.get("source") is None else U(m["source"]), None if m.get("target") is None else U(m["target"]),
+                                 m["affinity"], m.get("score")) for m in st["matches"]],
+                    "score": st.get("score")}
+
+            def read(ce=ce):
+                return {"ann": _coll_content(ce.annotations), "pred": _coll_content(ce.predictions),
+                        "matches": _match_content(ce.matches), "score": None if ce.score is None else rat(ce.score)}
+            got = read()
+            if got != want:
+                notes.append({"step": k, "what": "unfaithful", "want": want, "got": got})
+            poisoned = False
+            if st.get("poison"):           # the caller edits what it got back: nothing may be shared with later calls
+                try:
+                    ce.score = 0.75
+                    if isinstance(ce.matches, list):
+                        ce.matches.append(ce.matches[0]) if ce.matches else None
+                        ce.matches.reverse()
+                    ce.matches = list(ce.matches)[:1]
+                    poisoned = True
+                except Exception:  # noqa: BLE001
+                    poisoned = True
+            if not poisoned:
+                results.append((k, read, {"matches": want["matches"], "score": want["score"]}, ms_generation))
+        else:
+            raise KeyError(do)
+    for k, read, want, gen in results:
+        if gen != ms_generation and want["matches"]:
+            continue        # its Match objects were reused (assigned to) by a later step of this very session
+        now = read()
+        if {"matches": now["matches"], "score": now["score"]} != want:
+            notes.append({"step": k, "what": "result-changed-later", "first": want, "now": now})
+    return {"verdicts": verdicts, "notes": notes}
+
+
+def _cmp_history(h, io, mo):
+    if isinstance(io, dict) and "raise" in io:
+        return f"the session raised {io['raise']} outside a construction"
+    if io.get("skipped"):
+        return None
+    for n in io.get("notes", []):
+        if n["what"] == "argument-mutated":
+            return (f"step {n['step']}: the construction changed one of its arguments in place "
+                    f"(before {json.dumps(n['before'])[:200]} after {json.dumps(n['after'])[:200]})")
+        if n["what"] == "unfaithful":
+            return (f"step {n['step']}: the accepted clip evaluation is not what the objects carried at that moment "
+                    f"(want {json.dumps(n['want'])[:200]} got {json.dumps(n['got'])[:200]})")
+        if n["what"] == "result-changed-later":
+            return f"the clip evaluation returned at step {n['step']} changed through later constructions"
+    evals = [k for k, st in enumerate(h["steps"]) if st["do"] == "eval"]
+    if not isinstance(mo, list) or len(mo) != len(io["verdicts"]) or len(evals) != len(mo):
+        return "the session has another number of constructions than the model"
+    for k, a, b in zip(evals, io["verdicts"], mo):
+        if a is not b:
+            st = h["steps"][k]
+            trail = " -> ".join(s["do"] + (":" + s["how"] if s.get("how") else "") for s in h["steps"][:k + 1])
+            what = ("a clip evaluation whose matches do not cover what its annotations / predictions hold now was constructed"
+                    if a else "a well-formed clip evaluation was rejected")
+            return f"step {k} ({trail}; path {st.get('path', 'ctor')}): {what}"
+    return None
+
+
+OPS["clip_eval_history"] = Op(
+    "clip_eval_history", _impl_clip_eval_history, compare=_cmp_history, shrink=True, valid=_session_valid,
+    nontrivial=lambda h, out: isinstance(out, dict) and not out.get("skipped") and any(v is True for v in out.get("verdicts", [])))
+
+
+# ------------------------------------------------------------------ histories of every operation (harness/history.py)
+_REJ = object()
+
+
+def _try_make(make, inp):
+    try:
+        return make(inp)
+    except Rejected:
+        return _REJ
+
+
+def _safely(fn):
+    """a poisoning step must never raise (a frozen model, a tuple): then there is nothing to poison"""
+    def poison(res):
+        if res is _REJ or res is None:
+            return False
+        try:
+            return fn(res)
+        except Exception:  # noqa: BLE001
+            return False
+    return poison
+
+
+def _poison_unit(made):
+    obj, _got = made
+    from pydantic import BaseModel
+    if not isinstance(obj, BaseModel) or type(obj).__name__ not in ("Match", "ClipEvaluation", "SoundEventPrediction",
+                                                                      "SequencePrediction", "PredictedTag", "ClipPrediction"):
+        return False          # a whole loaded collection: nothing simple to edit
+    for attr in ("score", "affinity"):
+        if attr in type(obj).model_fields:
+            setattr(obj, attr, 7.0)
+    if "tags" in type(obj).model_fields and obj.tags:
+        obj.tags[0].score = 7.0
+    return True
+
+
+def _poison_clip(c):
+    c.start_time, c.end_time = 99.0, -99.0
+    return True
+
+
+def _poison_match(m):
+    m.affinity, m.source, m.target = 5.0, None, None
+    return True
+
+
+def _poison_project(proj):
+    proj.tasks = []
+    proj.clip_annotations = list(proj.clip_annotations) * 2
+    return True
+
+
+def _poison_clip_eval(ce):
+    ce.score = 0.75
+    ce.matches = []
+    return True
+
+
+def _seq_history(name, base, make, canon, poison):
+    """consecutive constructions of one kind in one process: every step is judged by the base operation's model"""
+    return history.history_op(name, OPS[base], build=lambda inp: {"inp": inp},
+                              call=lambda a: _try_make(make, a["inp"]),
+                              canon=lambda inp, a, res: False if res is _REJ else canon(inp, res),
+                              poison=_safely(poison),
+                              nontrivial=lambda h, out: isinstance(out, dict) and any(o is True for o in out.get("steps", [])))
+
+
+OPS["unit_seq"] = _seq_history("unit_seq", "unit", _make_unit, _canon_unit, _poison_unit)
+OPS["clip_seq"] = _seq_history("clip_seq", "clip", _make_clip, _canon_clip, _poison_clip)
+OPS["match_seq"] = _seq_history("match_seq", "match", _make_match, _canon_match, _poison_match)
+OPS["clip_eval_seq"] = _seq_history("clip_eval_seq", "clip_eval", _make_clip_eval, _canon_clip_eval, _poison_clip_eval)
+
+
+# annotation projects: tasks / clip annotations that were used in one project, changed (assignment, model_copy) and used again
+def _ph_build(inp):
+    if inp["path"] != "ctor":
+        return {"inp": inp}
+    tasks, cas = _project_objects({**inp, "cont": None})
+    return {"inp": inp, "tasks": tasks, "cas": cas}
+
+
+def _ph_call(args):
+    from soundevent import data
+    if "tasks" not in args:
+        return _try_make(_make_project, args["inp"])
+    try:
+        return _attempt(lambda: data.AnnotationProject(uuid=U("PROJ"), name="p", created_on=DT, tasks=args["tasks"],
+                                                       clip_annotations=args["cas"]))
+    except Rejected:
+        return _REJ
+
+
+def _ph_canon(inp, args, res):
+    if args.get("touched"):        # its task / annotation objects were assigned to by a later step of this very history
+        return args.get("out")
+    out = False if res is _REJ else _canon_project(inp, res)
+    args["out"] = out
+    return out
+
+
+def _ph_snapshot(args):
+    if "tasks" not in args:
+        return None
+    return [[(str(t.uuid), str(t.clip.uuid)) for t in args["tasks"]], [(str(a.uuid), str(a.clip.uuid)) for a in args["cas"]]]
+
+
+PROJECT_REUSE = ("assign", "copy_update", "deepcopy_assign")
+
+
+def _ph_modify(args, inp, how):
+    import copy as _copy
+    from soundevent import data
+    if inp["path"] != "ctor" or "tasks" not in args:
+        return None
+    end = 4.0 if inp.get("alias") == "clip_content" else 5.0
+
+    def reuse(old, clips, role, fresh, end=5.0):
+        out = []
+        for k, c in enumerate(clips):
+            clip = CLIP(c, role, end=end)
+            if k >= len(old):
+                out.append(fresh(k, clip))
+            elif how == "assign":
+                old[k].clip = clip
+                out.append(old[k])
+            elif how == "copy_update":
+                out.append(old[k].model_copy(update={"clip": clip}))
+            else:
+                o = _copy.deepcopy(old[k])
+                o.clip = clip
+                out.append(o)
+        return out
+    try:
+        tasks = reuse(args["tasks"], inp["task_clips"], "task",
+                      lambda k, clip: data.AnnotationTask(uuid=U(f"task{k}"), clip=clip, created_on=DT))
+        cas = reuse(args["cas"], inp["ann_clips"], "ann",
+                    lambda k, clip: data.ClipAnnotation(uuid=U(f"pca{k}"), clip=clip, created_on=DT), end=end)
+    except Exception:  # noqa: BLE001 - the current code does not allow the change (frozen models): fresh objects instead
+        args["touched"] = True
+        return None
+    if how == "assign":
+        args["touched"] = True
+        args["tasks"][:] = tasks          # the very list objects, changed in place
+        args["cas"][:] = cas
+        tasks, cas = args["tasks"], args["cas"]
+    return {"inp": inp, "tasks": tasks, "cas": cas}
+
+
+OPS["project_history"] = history.history_op(
+    "project_history", OPS["project"], _ph_build, _ph_call, _ph_canon, snapshot=_ph_snapshot, modify=_ph_modify,
+    poison=_safely(_poison_project),
+    nontrivial=lambda h, out: isinstance(out, dict) and any(o is True for o in out.get("steps", [])))
 
 
 # ------------------------------------------------------------------ tie 1: constraint metadata
@@ -1020,6 +1810,7 @@ def _model_validators(cls):
 def _run_validators(cls, after_stub, before_values):
     """every model validator of `cls` (whatever its name), in declaration order: before-mode ones on the raw mapping,
     after-mode ones on the stub"""
+    _forget_memos(cls)
     for _name, dec in _model_validators(cls).items():
         fn = dec.func
         if dec.info.mode == "before":
@@ -1040,21 +1831,36 @@ _SHAPE_ERRORS = (AttributeError, TypeError, KeyError, IndexError, LookupError)
 
 def _soft_sym_tie(ctx, name, thunk, variables, model_term, tactic, op):
     """a symbolic tie that depends on the shape of the validated object: when the current source can no longer be
-    traced on the stub (it reads something the stub lacks, formats or hashes an identifier) the tie is reported as not
-    re-established in the evidence and the exhaustive correspondence over the same shapes remains the tie; when it can be
-    traced, the proof of equality with the model is an obligation like any other"""
+    traced on the stub (it reads something the stub lacks, formats or hashes an identifier, keeps state between calls so
+    that the paths do not close) the tie is reported as not re-established in the evidence and the exhaustive
+    correspondence over the same shapes remains the tie; when it can be traced, the proof of equality with the model is
+    an obligation like any other"""
     from .. import symtrace as st
     from ..leanio import InfraError
     try:
-        st.trace(thunk, catch=(ValueError, AssertionError), max_paths=3000)
+        src, _tree, n = st.extract(name, thunk, variables, "Bool", catch=(ValueError, AssertionError))
     except InfraError:
         raise
     except Exception as e:  # noqa: BLE001
         ctx.symbolic_ties[name] = {"not_re_established": repr(e)[:200]}
         ctx.tally("symbolic tie not re-established (shape): " + name.split("_n")[0])
         return
-    ctx.sym_tie(name, thunk, variables, "Bool", model_term, tactic=tactic, meta={"op": op},
-                catch=(ValueError, AssertionError))
+    ctx.symbolic_ties[name] = {"paths": n}
+    ctx.obligation(name, st.tie_obligation(name, src, variables, model_term, (), tactic=tactic), {"op": op})
+
+
+def _forget_memos(cls):
+    """functools caches of the module that defines `cls` are emptied before a symbolic run: a (correct) memo keyed by the
+    full input would otherwise carry symbolic keys from one path into the next"""
+    import sys
+    mod = sys.modules.get(getattr(cls, "__module__", ""), None)
+    for v in list(vars(mod).values()) if mod is not None else []:
+        clear = getattr(v, "cache_clear", None)
+        if callable(clear):
+            try:
+                clear()
+            except Exception:  # noqa: BLE001
+                pass
 
 
 SIDE_PATTERNS = [(1, 1), (0, 1), (1, 0), (0, 0)]
@@ -1398,11 +2204,13 @@ def _arrangements(max_events, max_matches):
                     yield na, np_, combo
 
 
-ALIASES = [None, "shared_se", "clip_content", "match_content"]
+ALIASES = [None, "shared_se", "clip_content", "match_content", "same_obj"]
 
 
 def _alias_for(path, alias):
     """an AOEF document holds one object per uuid: only the shared sound event can be expressed there"""
+    if alias == "same_obj":       # one Python object in the clip annotation and in the match: only with live objects
+        return alias if (path == "ctor" or path.startswith("attrs")) else None
     return alias if (path != "aoef" or alias == "shared_se") else None
 
 
@@ -1540,8 +2348,632 @@ def _malformed_cases():
             yield {"path": path, "start_time": a, "end_time": b}
 
 
+# ------------------------------------------------------------------ generators: identifiers shared across kinds
+def _shared_arrangements(universe, max_matches, foreign=True):
+    """annotated and predicted sound events draw their identifiers from one universe (a prediction may carry the uuid
+    of an annotation): every pair of sub-lists, every multiset of <= max_matches matches over (universe + none)^2 — an
+    identifier that is only annotated is foreign as a source and vice versa"""
+    subs = [list(c) for k in range(len(universe) + 1) for c in itertools.combinations(universe, k)]
+    side = [None] + list(universe) + (["pf"] if foreign else [])
+    kinds = [(s_, t_) for s_ in side for t_ in side]
+    for A in subs:
+        for P in subs:
+            for k in range(max_matches + 1):
+                for combo in itertools.combinations_with_replacement(kinds, k):
+                    yield A, P, combo
+
+
+def _shared_cases(ctx, universe, max_matches, paths=PATHS, sample=None, foreign=False):
+    rng = ctx.rng
+    arrs = list(_shared_arrangements(universe, max_matches, foreign))
+    if sample is not None and len(arrs) > sample:
+        arrs = rng.sample(arrs, sample)
+    for A, P, combo in arrs:
+        combo = list(combo)
+        rng.shuffle(combo)
+        nulls = rng.choice(["absent", "explicit"])
+        for path in paths:
+            yield _arr_case(0, 0, combo, path, nulls=nulls, ann_ids=list(A), pred_ids=list(P),
+                            alias=rng.choice([None, None, "shared_se", "same_obj", "match_content"]))
+
+
+def _rename_shared(case, mode):
+    """the same arrangement with predicted sound events carrying identifiers of annotated ones:
+    "pair": p_i is renamed a_i; "cross": p_i is renamed a_{i+1 mod n} (the prediction matched with one annotation carries
+    the uuid of another); "foreign": the foreign source carries the uuid of a0 and the foreign target the uuid of p0"""
+    na = len(case["ann_ids"])
+    if mode == "pair":
+        ren_s = {f"p{i}": f"a{i}" for i in range(8)}
+        ren_t = {}
+    elif mode == "cross":
+        ren_s = {f"p{i}": f"a{(i + 1) % max(na, 1)}" for i in range(8)}
+        if len(set(ren_s[p] for p in case["pred_ids"])) < len(case["pred_ids"]):
+            ren_s = {f"p{i}": f"a{i}" for i in range(8)}
+        ren_t = {}
+    else:
+        ren_s, ren_t = {"pf": "a0"}, {"af": "p0"}
+    c = copy.deepcopy(case)
+    c["pred_ids"] = [ren_s.get(p, p) for p in c["pred_ids"]]
+    c["ann_ids"] = [ren_t.get(a, a) for a in c["ann_ids"]]
+    for m in c["matches"]:
+        if m.get("source") is not None:
+            m["source"] = ren_s.get(m["source"], m["source"])
+        if m.get("target") is not None:
+            m["target"] = ren_t.get(m["target"], m["target"])
+    return c
+
+
+# ------------------------------------------------------------------ generators: products of options
+def _family():
+    """representative arrangements: accepted and rejected ones of every kind"""
+    P = lambda *ms: list(ms)      # noqa: E731
+    return [
+        (0, 0, P()), (1, 0, P((None, "a0"))), (0, 1, P(("p0", None))), (1, 1, P(("p0", "a0"))),
+        (2, 2, P(("p0", "a0"), ("p1", "a1"))), (2, 1, P(("p0", "a1"), (None, "a0"))),
+        (2, 2, P(("p0", "a0"), ("p1", "a0"))),                  # duplicate target, missing a1
+        (1, 1, P(("p0", "a0"), ("p0", "a0"))),                  # the same match twice
+        (1, 1, P(("p0", None))),                                # missing target
+        (1, 1, P(("p0", "a0"), ("pf", None))),                  # foreign source
+        (1, 0, P((None, "a0"), (None, "af"))),                  # foreign target
+        (1, 1, P(("p0", "a0"), (None, None))),                  # null-null match
+    ]
+
+
+PRODUCT_DIMS = {
+    "path": PATHS + ["attrs:ns", "attrs:namedtuple"],
+    "nulls": ["absent", "explicit"],
+    "alias": ALIASES,
+    "share": [False, True],
+    "cont": [None, "tuple", "nested", "rev"],
+    "shared": [None, "pair", "cross", "foreign"],
+    "pred_clip": ["c0", "c1"],
+    "load_call": [None, "positional"],
+    "score": [None, "1/2", "0", "1"],          # the optional numbers given or not
+    "mscore": [None, "1"],
+    "rich": [False, True],                      # the optional fields next to the validated ones filled in or not
+    "twice": [False, True],                     # the caller's mapping validated a second time
+}
+
+
+def _product_cases(ctx, full=False):
+    """every pair of option values with every representative arrangement (the remaining options drawn at random);
+    `full`: the whole product"""
+    rng = ctx.rng
+    names = list(PRODUCT_DIMS)
+    out = []
+
+    def mk(fam, opt):
+        na, np_, combo = fam
+        c = _arr_case(na, np_, combo, opt["path"], pred_clip=opt["pred_clip"], nulls=opt["nulls"], share=opt["share"],
+                      alias=opt["alias"], score=opt["score"],
+                      numbers={("score", i): opt["mscore"] for i in range(len(combo))} if opt["mscore"] else None)
+        if opt["rich"] and opt["path"] != "aoef":
+            c["rich"] = True
+        if opt["twice"] and opt["path"] == "dict":
+            c["twice"] = True
+        if opt["cont"]:
+            c["cont"] = opt["cont"]
+        if opt["load_call"] and opt["path"] == "aoef":
+            c["load_call"] = opt["load_call"]
+        if opt["shared"]:
+            c = _rename_shared(c, opt["shared"])
+        return c
+    for fam in _family():
+        if full:
+            for vals in itertools.product(*PRODUCT_DIMS.values()):
+                out.append(mk(fam, dict(zip(names, vals))))
+            continue
+        for i, j in itertools.combinations(range(len(names)), 2):
+            for vi in PRODUCT_DIMS[names[i]]:
+                for vj in PRODUCT_DIMS[names[j]]:
+                    opt = {n: rng.choice(v) for n, v in PRODUCT_DIMS.items()}
+                    opt[names[i]], opt[names[j]] = vi, vj
+                    out.append(mk(fam, opt))
+    return out
+
+
+# ------------------------------------------------------------------ generators: sizes at which an implementation could switch strategy
+SIZES_QUICK = [16, 17, 256, 257, 1024, 1025]
+SIZES_THOROUGH = [15, 16, 17, 255, 256, 257, 1023, 1024, 1025, 2049]
+
+
+def _size_cases(ctx):
+    out, proj = [], []
+    sizes = SIZES_THOROUGH if ctx.thorough() else SIZES_QUICK
+    for n in sizes:
+        A = [f"a{i}" for i in range(n)]
+        P = [f"p{i}" for i in range(n)]
+        perfect = [(p, a) for p, a in zip(P, A)]
+        unmatched = [(None, a) for a in A] + [(p, None) for p in P]
+        fams = {
+            "perfect": (A, P, perfect), "unmatched": (A, P, unmatched),
+            "missing-last": (A, P, perfect[:-1] + [(P[-1], None)]),
+            "missing-first": (A, P, [(P[0], None)] + perfect[1:]),
+            "dup-last": (A, P, perfect + [(None, A[-1])]),
+            "dup-swapped": (A, P, perfect[:-2] + [(P[-2], A[-1]), (P[-1], A[-1])]),      # one twice, one never: equal counts
+            "foreign": (A, P, perfect + [("pf", None)]),
+            "shared-ids": (A, A, [(a, a) for a in A]),
+            "shared-ids-one-sided": (A, A, [(a, a) for a in A[:-1]] + [(A[-1], None)]),
+            "listed-twice": (A + [A[0]], P, perfect),
+        }
+        all_paths = n in (17, 257, 1025)
+        for fam, (a_, p_, combo) in fams.items():
+            if not ctx.thorough() and not all_paths and fam not in ("perfect", "missing-last", "dup-swapped", "dup-last"):
+                continue          # quick: every family just above a threshold, the main ones at it
+            paths = ["ctor"]
+            if all_paths and fam in ("perfect", "missing-last", "dup-swapped", "shared-ids-one-sided"):
+                paths = PATHS if (n < 1000 or ctx.thorough()) else (["ctor", "dict", "json"] if fam in ("perfect", "dup-swapped") else ["ctor"])
+            for path in paths:
+                out.append(_arr_case(0, 0, combo, path, ann_ids=list(a_), pred_ids=list(p_)))
+        clips = [f"k{i}" for i in range(n)]
+        for tc, ac in ((clips, clips), (clips, [clips[-1]]), (clips[:-1], clips), (clips, clips + ["c1"]), (clips[1:], [clips[0]]),
+                       (clips + clips, clips)):
+            for path in (PATHS if all_paths else ["ctor"]):
+                proj.append({"path": path, "task_clips": list(tc), "ann_clips": list(ac)})
+    return out, proj
+
+
+# ------------------------------------------------------------------ generators: tolerance-sized offsets, ties, lattices
+def _fl(x):
+    """exact rational of the binary64 nearest to x"""
+    return Fraction(float(x))
+
+
+LADDER = [Fraction(1, 2 ** 52), Fraction(1, 10 ** 15), Fraction(1, 10 ** 12), Fraction(1, 10 ** 9), Fraction(1, 10 ** 8),
+          Fraction(1, 10 ** 6), Fraction(1, 10 ** 5), Fraction(1, 10 ** 3)]
+MAGNITUDES = [Fraction(1, 10 ** 9), Fraction(3, 10), Fraction(1), Fraction(10), Fraction(3600), Fraction(10 ** 6), Fraction(2 ** 40),
+              Fraction(10 ** 15), Fraction(-1), Fraction(-3600)]
+
+
+def _clip_ladder_cases(paths=PATHS):
+    """start and end a tolerance-sized distance apart (relative 2^-52 ... 10^-3, and one unit in the last place), at small
+    and large magnitudes, in both orders, and the exact ties"""
+    import math
+    seen = set()
+    for m in MAGNITUDES:
+        a = _fl(m)
+        others = {_fl(math.nextafter(float(a), math.inf)), _fl(math.nextafter(float(a), -math.inf)), a}
+        for d in LADDER:
+            others.add(_fl(float(a) * (1 + float(d))))
+            others.add(_fl(float(a) * (1 - float(d))))
+            others.add(_fl(float(a) + float(d)))       # absolute offsets
+            others.add(_fl(float(a) - float(d)))
+        for b in sorted(others):
+            for s_, e_ in ((a, b), (b, a)):
+                if (s_, e_) in seen:
+                    continue
+                seen.add((s_, e_))
+                for path in paths:
+                    yield {"path": path, "start": rat(s_), "end": rat(e_)}
+    z = [Fraction(0), Fraction(1, 2 ** 1074), Fraction(1, 10 ** 300).limit_denominator(10 ** 300)]
+    for d in LADDER:
+        for s_, e_ in ((_fl(d), Fraction(0)), (Fraction(0), _fl(d)), (Fraction(0), -_fl(d)), (-_fl(d), Fraction(0))):
+            for path in paths:
+                yield {"path": path, "start": rat(s_), "end": rat(e_)}
+    for path in paths:
+        yield {"path": path, "start": rat(z[1]), "end": "0"}
+        yield {"path": path, "start": "0", "end": rat(z[1])}
+
+
+def _unit_ladder_values():
+    import math
+    vals = {Fraction(0), Fraction(1), _fl(math.nextafter(1.0, 0.0)), _fl(math.nextafter(1.0, 2.0))}
+    for d in LADDER:
+        for v in (float(d), -float(d), 1 + float(d), 1 - float(d)):
+            vals.add(_fl(v))
+    return sorted(vals)
+
+
+def _unit_ladder_cases(paths=PATHS):
+    for field in UNIT_FIELDS:
+        for path in paths:
+            for x in _unit_ladder_values():
+                yield {"field": field, "path": path, "x": rat(x), "form": "float"}
+
+
+def _unit_lattice_cases():
+    """every hundredth from -0.02 to 1.02 (the nearest binary64 values: a non-dyadic axis) and every 1/64"""
+    vals = sorted({_fl(k / 100) for k in range(-2, 103)} | {Fraction(k, 64) for k in range(-1, 66)})
+    for field in UNIT_FIELDS:
+        for x in vals:
+            yield {"field": field, "path": "ctor", "x": rat(x), "form": "float"}
+    for field in ("Match.affinity", "PredictedTag.score@clip", "SequencePrediction.score"):
+        for x in vals:
+            for path in ("json", "aoef"):
+                yield {"field": field, "path": path, "x": rat(x), "form": "float"}
+
+
+# ------------------------------------------------------------------ generators: unusual but legitimate ways of passing the input
+FORM_VALUES = [Fraction(0), Fraction(1, 2), Fraction(1), 1 + E, -E, Fraction(2), Fraction(-1), 1 + Fraction(1, 2 ** 23),
+               1 - Fraction(1, 2 ** 24), -Fraction(1, 2 ** 149), 1 + Fraction(1, 2 ** 10), Fraction(1, 2 ** 24)]
+
+
+def _unit_form_cases():
+    for field in UNIT_FIELDS:
+        for x in FORM_VALUES:
+            for form in UNUSUAL_FORMS:
+                if not form_ok(rat(x), form):
+                    continue
+                for path in ("ctor", "dict") + (("attrs:ns",) if field in ATTR_UNIT_FIELDS else ()):
+                    yield {"field": field, "path": path, "x": rat(x), "form": form}
+    for field in ATTR_UNIT_FIELDS:
+        for kind in ATTR_KINDS:
+            for x, form in UNIT_VALUES:
+                if form in ("float", "int"):
+                    yield {"field": field, "path": "attrs:" + kind, "x": rat(x), "form": form}
+
+
+def _clip_form_cases():
+    vals = [Fraction(0), Fraction(1), Fraction(2), 1 + E, Fraction(1, 2), 1 + Fraction(1, 2 ** 23), Fraction(-1)]
+    for s_, e_ in itertools.product(vals, repeat=2):
+        for sf in UNUSUAL_FORMS:
+            for ef in (sf, "float"):
+                if form_ok(rat(s_), sf) and form_ok(rat(e_), ef):
+                    for path in ("ctor", "dict", "attrs:ns"):
+                        yield {"path": path, "start": rat(s_), "end": rat(e_), "start_form": sf, "end_form": ef}
+    for s_, e_ in itertools.product(CLIP_TIMES, repeat=2):
+        for kind in ATTR_KINDS:
+            yield {"path": "attrs:" + kind, "start": rat(s_), "end": rat(e_)}
+        yield {"path": "dict", "start": rat(s_), "end": rat(e_), "cont": "nested"}
+        yield {"path": "dict", "start": rat(s_), "end": rat(e_), "twice": True}
+        yield {"path": "aoef", "start": rat(s_), "end": rat(e_), "load_call": "positional"}
+
+
+def _match_form_cases():
+    for s_ in (None, "p0"):
+        for t_ in (None, "a0"):
+            for x in FORM_VALUES:
+                for form in UNUSUAL_FORMS:
+                    if form_ok(rat(x), form):
+                        for path in ("ctor", "dict"):
+                            yield {"path": path, "source": s_, "target": t_, "affinity": rat(x), "score": None, "form": form}
+                            if form_ok("1", form):
+                                yield {"path": path, "source": s_, "target": t_, "affinity": "1", "score": rat(x), "form": form}
+    for c in _match_cases():
+        if c["path"] == "dict":
+            yield {**c, "twice": True}
+    # a match between a prediction and an annotation that carry one uuid
+    for path in PATHS:
+        yield {"path": path, "source": "a0", "target": "a0", "affinity": "1/2", "score": None}
+        yield {"path": path, "source": "a0", "target": None, "affinity": "1/2", "score": None}
+
+
+def _project_unusual_cases():
+    clips = ["c0", "c1", "c2"]
+    for nt in range(3):
+        for tc in itertools.product(clips, repeat=nt):
+            for na in range(3):
+                for ac in itertools.product(clips, repeat=na):
+                    for kind in ("ns", "namedtuple", "slots"):
+                        yield {"path": "attrs:" + kind, "task_clips": list(tc), "ann_clips": list(ac)}
+                    for path, cont in (("ctor", "tuple"), ("dict", "tuple"), ("dict", "rev"), ("json", "rev"), ("aoef", "rev")):
+                        yield {"path": path, "task_clips": list(tc), "ann_clips": list(ac), "cont": cont}
+                    yield {"path": "aoef", "task_clips": list(tc), "ann_clips": list(ac), "load_call": "positional"}
+                    for path in ("ctor", "dict", "json"):
+                        yield {"path": path, "task_clips": list(tc), "ann_clips": list(ac), "rich": True}
+                    yield {"path": "dict", "task_clips": list(tc), "ann_clips": list(ac), "twice": True}
+
+
+def _clip_eval_attr_cases(ctx):
+    for na, np_, combo in _arrangements(2, 2):
+        kind = ctx.rng.choice(ATTR_KINDS)
+        yield _arr_case(na, np_, list(combo), "attrs:" + kind, alias=ctx.rng.choice(ALIASES))
+    for fam in _family():
+        for kind in ATTR_KINDS:
+            yield _arr_case(fam[0], fam[1], fam[2], "attrs:" + kind)
+
+
+# ------------------------------------------------------------------ generators: sessions and histories
+def _rows(pairs):
+    return [{"source": s_, "target": t_, "affinity": "1/2", "score": None} for s_, t_ in pairs]
+
+
+def _valid_matching(rng, A, P):
+    P2 = list(P)
+    rng.shuffle(P2)
+    k = rng.randint(0, min(len(A), len(P2)))
+    pairs = [(P2[i], A[i]) for i in range(k)] + [(None, a) for a in A[k:]] + [(p, None) for p in P2[k:]]
+    rng.shuffle(pairs)
+    return pairs
+
+
+def _scripted_sessions():
+    """an object is used, changed (every way of changing it), used again with the old matches and with the matches of
+    what it holds now; for copies also the original again — both kinds of object, every construction path"""
+    out = []
+    changes = [("set", how) for how in SET_HOWS] + [("copy", how) for how in SHALLOW_COPIES + DEEP_COPIES]
+    directions = {"grow": (["x0"], ["x0", "x1"]), "shrink": (["x0", "x1"], ["x0"]), "replace": (["x0"], ["x1"]),
+                  "fill": ([], ["x0"]), "reorder": (["x0", "x1"], ["x1", "x0"])}
+    k = 0
+    for kind in ("ann", "pred"):
+        for what, how in changes:
+            for dname, (old, new) in directions.items():
+                path = EVAL_PATHS[k % len(EVAL_PATHS)]
+                via = ("ctor", "dict", "json", "aoef")[k % 4]
+                k += 1
+                pre = "a" if kind == "ann" else "p"
+                o_ids = [pre + x[1:] for x in old]
+                n_ids = [pre + x[1:] for x in new]
+                other = ["p0"] if kind == "ann" else ["a0"]
+
+                def matching(ids):
+                    A, P = (ids, other) if kind == "ann" else (other, ids)
+                    pairs = [(p, a) for p, a in zip(P, A)] + [(None, a) for a in A[len(P):]] + [(p, None) for p in P[len(A):]]
+                    return _rows(pairs)
+                hk, ho = (0, 1)
+                steps = [{"do": "new", "h": hk, "kind": kind, "clip": "c0", "ids": o_ids, "via": via},
+                         {"do": "new", "h": ho, "kind": "pred" if kind == "ann" else "ann", "clip": "c0", "ids": other, "via": "ctor"}]
+
+                def ev(h_changed, ids_for_matches, path=path, **kw):
+                    a_, p_ = (h_changed, ho) if kind == "ann" else (ho, h_changed)
+                    return {"do": "eval", "ann": a_, "pred": p_, "matches": matching(ids_for_matches), "score": None, "path": path, **kw}
+                steps.append(ev(hk, o_ids))
+                if what == "set":
+                    steps.append({"do": "set_ids", "h": hk, "ids": n_ids, "how": how})
+                    steps += [ev(hk, o_ids), ev(hk, n_ids), ev(hk, o_ids, path="ctor")]
+                else:
+                    steps.append({"do": "copy", "src": hk, "dst": 2, "ids": n_ids, "how": how})
+                    steps += [ev(2, o_ids), ev(2, n_ids), ev(hk, o_ids), ev(hk, n_ids, path="ctor")]
+                    if how in DEEP_COPIES:      # a copy that keeps the list, then changed in place
+                        steps += [{"do": "copy", "src": hk, "dst": 3, "ids": None, "how": how},
+                                  {"do": "set_ids", "h": 3, "ids": n_ids, "how": "append"},
+                                  ev(3, o_ids), ev(3, n_ids), ev(hk, o_ids)]
+                out.append({"steps": steps})
+    return out
+
+
+def _random_session(rng):
+    names = {"ann": ["a0", "a1", "a2", "a3"], "pred": ["p0", "p1", "p2", "a0", "a1"]}      # predictions may carry annotation uuids
+    content, past = {}, {}
+    steps = []
+
+    def some_ids(kind):
+        ids = [n for n in names[kind] if rng.random() < 0.45]
+        rng.shuffle(ids)
+        if ids and rng.random() < 0.08:
+            ids.append(ids[0])        # the same sound event listed twice
+        return ids
+
+    def bind(hd, kind, clip, ids):
+        content[hd] = (kind, clip, list(ids))
+        past.setdefault(hd, []).append(list(ids))
+    for hd, kind in ((0, "ann"), (1, "pred")):
+        ids = some_ids(kind)
+        steps.append({"do": "new", "h": hd, "kind": kind, "clip": "c0", "ids": ids, "via": rng.choice(["ctor", "ctor", "dict", "json", "aoef"])})
+        bind(hd, kind, "c0", ids)
+    n_ev = 0
+    while n_ev < rng.randint(3, 7) and len(steps) < 24:
+        r = rng.random()
+        hs = sorted(content)
+        if r < 0.5:
+            a_ = rng.choice([h_ for h_ in hs if content[h_][0] == "ann"])
+            p_ = rng.choice([h_ for h_ in hs if content[h_][0] == "pred"])
+            q = rng.random()
+            A = content[a_][2] if q < 0.6 or len(past[a_]) < 2 else rng.choice(past[a_])      # matches of what it held before
+            P = content[p_][2] if q < 0.6 or len(past[p_]) < 2 else rng.choice(past[p_])
+            pairs = _valid_matching(rng, A, P)
+            if rng.random() < 0.2 and pairs:
+                pairs.pop(rng.randrange(len(pairs)))
+            if rng.random() < 0.1 and pairs:
+                pairs.append(rng.choice(pairs))
+            rows = _rows(pairs)
+            if rows and rng.random() < 0.08:
+                rows[0]["affinity"] = rat(1 + E)
+            steps.append({"do": "eval", "ann": a_, "pred": p_, "matches": rows, "path": rng.choice(EVAL_PATHS),
+                          "score": rng.choice([None, None, "1/2"]), "match_objs": rng.choice(["fresh", "fresh", "reuse"]),
+                          "poison": rng.random() < 0.3})
+            n_ev += 1
+        elif r < 0.72:
+            hd = rng.choice(hs)
+            kind, clip, ids = content[hd]
+            q = rng.random()
+            if q < 0.4:
+                new = ids + [n for n in names[kind] if n not in ids][:rng.randint(1, 2)]
+            elif q < 0.6 and ids:
+                new = ids[:-1]
+            else:
+                new = some_ids(kind)
+            steps.append({"do": "set_ids", "h": hd, "ids": new, "how": rng.choice(SET_HOWS)})
+            bind(hd, kind, clip, new)
+        elif r < 0.9:
+            src = rng.choice(hs)
+            kind, clip, ids = content[src]
+            dst = rng.choice(hs + [max(hs) + 1, max(hs) + 1])
+            if dst != src and content.get(dst, (kind,))[0] != kind:
+                dst = max(hs) + 1
+            if dst == src:
+                dst = max(hs) + 1
+            how = rng.choice(SHALLOW_COPIES + DEEP_COPIES)
+            new = some_ids(kind) if (how in SHALLOW_COPIES or rng.random() < 0.6) else None
+            steps.append({"do": "copy", "src": src, "dst": dst, "ids": new, "how": how})
+            past[dst] = list(past.get(src, []))
+            bind(dst, kind, clip, ids if new is None else new)
+        else:
+            hd = rng.choice(hs)
+            kind, clip, ids = content[hd]
+            new_clip = "c1" if clip == "c0" else "c0"
+            steps.append({"do": "set_clip", "h": hd, "clip": new_clip, "how": "assign"})
+            content[hd] = (kind, new_clip, ids)
+    return {"steps": steps}
+
+
+def _neighbours(op):
+    """inputs that share every identity with x (the same uuids) and are decided differently or hold other content"""
+    def unit(x, rng):
+        return [{**x, "x": v, "form": "float"} for v in ("0", "1", "1/2", rat(1 + E), rat(-E), "1/4") if v != x["x"]]
+
+    def clip(x, rng):
+        x = {**x, "start_form": "float", "end_form": "float"}
+        up = rat(_fl(float(Fraction(x["end"])) + 1))
+        return [{**x, "start": x["end"], "end": x["start"]}, {**x, "start": x["end"]}, {**x, "end": up}, {**x, "start": up}]
+
+    def match(x, rng):
+        return [{**x, "source": None if x.get("source") else "p0"}, {**x, "target": None if x.get("target") else "a0"},
+                {**x, "affinity": rat(1 + E)}, {**x, "affinity": "1/4"}, {**x, "source": None, "target": None}]
+
+    def project(x, rng):
+        out = [{**x, "task_clips": x["task_clips"][:-1]}, {**x, "ann_clips": x["ann_clips"] + ["c2"]},
+               {**x, "task_clips": x["task_clips"] + ["c2"]}, {**x, "ann_clips": x["ann_clips"][:-1]},
+               {**x, "task_clips": list(reversed(x["ann_clips"])), "ann_clips": list(x["task_clips"])}]
+        return [o for o in out if o != x]
+
+    def clip_eval(x, rng):
+        out = []
+        ms = x["matches"]
+        if ms:
+            out.append({**x, "matches": ms[:-1]})
+            out.append({**x, "matches": ms + [copy.deepcopy(ms[0])]})
+        out.append({**x, "pred_clip": "c1" if x["pred_clip"] == "c0" else "c0"})
+        out.append({**x, "ann_ids": x["ann_ids"] + ["a3"]})
+        out.append({**x, "ann_ids": x["ann_ids"] + ["a3"], "matches": ms + [{"source": None, "target": "a3", "affinity": "1/2", "score": None}]})
+        out.append({**x, "pred_ids": x["pred_ids"] + ["p3"], "matches": ms + [{"source": "p3", "target": None, "affinity": "1/2", "score": None}]})
+        return out
+    return {"unit": unit, "clip": clip, "match": match, "project": project, "clip_eval": clip_eval}[op]
+
+
+def _stage_histories(ctx):
+    """state carried between calls: sessions on live objects that are changed and used again (model: runHistory), and
+    consecutive constructions of every kind on the same uuids (x, a neighbour of x, x again; results poisoned; earlier
+    results read again)"""
+    rng = ctx.rng
+    sessions = _scripted_sessions() + [_random_session(rng) for _ in range(ctx.budget(400, 3000))]
+    sessions = [h for h in sessions if _session_valid(h)]
+    for h in sessions:
+        for st in h["steps"]:
+            ctx.tally("session step: " + st["do"] + (":" + st["how"] if st.get("how") else "")
+                      + (":" + st["path"] if st.get("path") else ""))
+    _SKIPPED[0] = 0
+    ctx.run_cases(OPS["clip_eval_history"], sessions)
+    if _SKIPPED[0]:
+        ctx.tally("sessions not carried out (the code does not allow a change step)", _SKIPPED[0])
+        if _SKIPPED[0] > len(sessions) // 2:
+            ctx.note(f"{_SKIPPED[0]} of {len(sessions)} sessions could not be carried out: the objects do not allow the change steps")
+    ctx.exhaustive["sessions"] = ("object kind (annotation / prediction) x every way of changing sound_events (" + ", ".join(SET_HOWS)
+                                  + "; copies: " + ", ".join(SHALLOW_COPIES + DEEP_COPIES) + ") x grow / shrink / replace / fill / "
+                                  "reorder, construction paths " + ", ".join(EVAL_PATHS) + " in rotation")
+
+    def tally(name, hs):
+        for h in hs:
+            for st in h["seq"]:
+                ctx.tally(f"history {name}: " + (st.get("reuse") or "fresh") + ("+poison" if st.get("poison") else ""))
+    n = ctx.budget(60, 600)
+    unit = [c for c in _unit_cases() if c.get("form", "float") == "float"]
+    hs = history.sequences(rng, rng.sample(unit, min(len(unit), 4 * n)), 2 * n, variants=_neighbours("unit"), poison=True)
+    tally("unit", hs)
+    ctx.run_cases(OPS["unit_seq"], hs)
+    clips = [c for c in _clip_cases([("float", "float")])]
+    hs = history.sequences(rng, rng.sample(clips, min(len(clips), 2 * n)), n, variants=_neighbours("clip"), poison=True)
+    tally("clip", hs)
+    ctx.run_cases(OPS["clip_seq"], hs)
+    ms = [c for c in _match_cases() if c.get("form", "float") == "float"]
+    hs = history.sequences(rng, ms, n, variants=_neighbours("match"), poison=True)
+    tally("match", hs)
+    ctx.run_cases(OPS["match_seq"], hs)
+    pj = list(_project_cases(2, 2))
+    hs = history.sequences(rng, rng.sample(pj, min(len(pj), 3 * n)), 2 * n, variants=_neighbours("project"),
+                           reuse_hows=PROJECT_REUSE, poison=True)
+    tally("project", hs)
+    ctx.run_cases(OPS["project_history"], hs)
+    ce = []
+    for fam in _family():
+        for path in PATHS + ["attrs:ns"]:
+            ce.append(_arr_case(fam[0], fam[1], fam[2], path))
+            ce.append(_rename_shared(_arr_case(fam[0], fam[1], fam[2], path), "pair"))
+    hs = history.sequences(rng, ce, 2 * n, variants=_neighbours("clip_eval"), poison=True)
+    tally("clip_eval", hs)
+    ctx.run_cases(OPS["clip_eval_seq"], hs)
+
+
+def _stage_shared_ids(ctx):
+    if ctx.thorough():
+        ctx.run_cases(OPS["clip_eval"], _shared_cases(ctx, ["a0", "a1"], 3))
+        ctx.run_cases(OPS["clip_eval"], _shared_cases(ctx, ["a0", "a1"], 4, paths=["ctor"]))
+        ctx.run_cases(OPS["clip_eval"], _shared_cases(ctx, ["a0", "a1", "a2"], 2))
+        ctx.run_cases(OPS["clip_eval"], _shared_cases(ctx, ["a0", "a1", "a2"], 2, foreign=True, paths=["ctor", "json"]))
+        ctx.exhaustive["identifiers shared across kinds"] = (
+            "annotated and predicted sound events with identifiers from one universe: every pair of sub-lists of 2 identifiers "
+            "x every multiset of <= 3 matches over (universe + none)^2 x 4 paths (<= 4 matches through the constructor), and of "
+            "3 identifiers x <= 2 matches x 4 paths (with a foreign identifier through constructor and JSON)")
+    else:
+        ctx.run_cases(OPS["clip_eval"], _shared_cases(ctx, ["a0", "a1"], 2))
+        ctx.run_cases(OPS["clip_eval"], _shared_cases(ctx, ["a0", "a1"], 3, paths=["ctor", "json"], sample=500))
+        ctx.run_cases(OPS["clip_eval"], _shared_cases(ctx, ["a0", "a1", "a2"], 2, foreign=True, sample=300))
+        ctx.exhaustive["identifiers shared across kinds"] = (
+            "annotated and predicted sound events with identifiers from one universe of 2: every pair of sub-lists x every "
+            "multiset of <= 2 matches over (universe + none)^2, x 4 paths; samples of the 3-match and 3-identifier scopes")
+    # every arrangement of the small exhaustive scope once more with the predictions renamed to annotation identifiers
+    extra = []
+    for na, np_, combo in _arrangements(2, 2):
+        base = _arr_case(na, np_, list(combo), ctx.rng.choice(PATHS))
+        for mode in ("pair", "cross", "foreign"):
+            extra.append(_rename_shared(base, mode))
+    ctx.run_cases(OPS["clip_eval"], extra)
+
+
+def _stage_products(ctx):
+    ctx.run_cases(OPS["clip_eval"], _product_cases(ctx, full=False))
+    if ctx.thorough():
+        full = _product_cases(ctx, full=True)
+        ctx.run_cases(OPS["clip_eval"], ctx.rng.sample(full, min(len(full), 20000)))
+    ctx.exhaustive["option products"] = ("every pair of values of " + ", ".join(f"{k} ({len(v)})" for k, v in PRODUCT_DIMS.items())
+                                         + f" with each of {len(_family())} representative arrangements")
+
+
+def _stage_sizes(ctx):
+    ce, pj = _size_cases(ctx)
+    for c in ce:
+        ctx.tally(f"size {len(c['ann_ids'])} ({c['path']})")
+    ctx.run_cases(OPS["clip_eval"], ce)
+    ctx.run_cases(OPS["project"], pj)
+    ctx.exhaustive["sizes"] = ("perfect / all-unmatched / one missing / one duplicated / duplicated+missing / foreign / shared "
+                               "identifiers / listed twice with " + ", ".join(map(str, SIZES_THOROUGH if ctx.thorough() else SIZES_QUICK))
+                               + " sound events (all four paths at 17, 257, 1025); projects with as many tasks")
+
+
+def _stage_boundaries(ctx):
+    ctx.run_cases(OPS["clip"], _clip_ladder_cases())
+    ctx.run_cases(OPS["unit"], _unit_ladder_cases())
+    ctx.run_cases(OPS["unit"], _unit_lattice_cases())
+    ctx.exhaustive["tolerance ladders"] = (
+        "clip start / end one ulp and relative / absolute 2^-52, 1e-15 ... 1e-3 apart in both orders and exactly tied, at "
+        "magnitudes 1e-9 ... 1e15 and negative, x 4 paths; scores at the same distances on both sides of 0 and of 1 on every "
+        "score-like field x 4 paths; every hundredth and every 1/64 of [-0.02, 1.02]")
+
+
+def _stage_unusual(ctx):
+    ctx.run_cases(OPS["unit"], _unit_form_cases())
+    ctx.run_cases(OPS["clip"], _clip_form_cases())
+    ctx.run_cases(OPS["match"], _match_form_cases())
+    ctx.run_cases(OPS["project"], _project_unusual_cases())
+    ctx.run_cases(OPS["clip_eval"], _clip_eval_attr_cases(ctx))
+    ctx.exhaustive["unusual inputs"] = (
+        "numbers as " + ", ".join(UNUSUAL_FORMS) + " (where the value is representable) on every score-like field, clip times "
+        "and match numbers; objects with attributes (" + ", ".join(ATTR_KINDS) + ") through model_validate(from_attributes); "
+        "tuples for lists, nested mappings / instances, reversed key and table order, io.load called positionally")
+
+
 # ------------------------------------------------------------------ run
 def run(ctx):
+    import time
+    inner = ctx.stage
+    times = {}
+
+    def timed(name, fn, *a, **kw):
+        t0 = time.time()
+        try:
+            return inner(name, fn, *a, **kw)
+        finally:
+            times[name] = times.get(name, 0.0) + time.time() - t0
+    ctx.stage = timed
+    try:
+        _run(ctx)
+    finally:
+        ctx.stage = inner
+        if os.environ.get("VERIF_STAGE_TIMES"):
+            print("stage seconds: " + ", ".join(f"{k} {v:.1f}" for k, v in times.items()), file=__import__("sys").stderr)
+
+
+def _run(ctx):
     ctx.stage("corpus", ctx.run_corpus, OPS)
     ctx.stage("tables", _tables, ctx)
     ctx.stage("symbolic-ties", _symbolic, ctx)
@@ -1556,6 +2988,12 @@ def run(ctx):
     ctx.stage("other-collections", _stage_other_collections, ctx)
     ctx.stage("project", _stage_project, ctx)
     ctx.stage("clip-eval", _stage_clip_eval, ctx)
+    ctx.stage("shared-identifiers", _stage_shared_ids, ctx)
+    ctx.stage("option-products", _stage_products, ctx)
+    ctx.stage("sizes", _stage_sizes, ctx)
+    ctx.stage("boundaries", _stage_boundaries, ctx)
+    ctx.stage("unusual-inputs", _stage_unusual, ctx)
+    ctx.stage("histories", _stage_histories, ctx)
     ctx.tally("aoef documents loaded", _LOADS[0])
 
 
@@ -1619,4 +3057,7 @@ def search(ctx, failures):
     ctx.run_cases(OPS["clip"], _clip_cases(forms))
     ctx.run_cases(OPS["match"], _match_cases())
     ctx.run_cases(OPS["clip_eval"], _clip_eval_cases(ctx, 2, 2))
+    ctx.run_cases(OPS["clip_eval"], _shared_cases(ctx, ["a0", "a1"], 2))
     ctx.run_cases(OPS["project"], _project_cases(2, 2))
+    ctx.run_cases(OPS["clip_eval_history"], [h for h in _scripted_sessions() if _session_valid(h)])
+    ctx.run_cases(OPS["clip"], _clip_ladder_cases(["ctor", "aoef"]))
